@@ -12,1279 +12,1118 @@ Definition show_fres (r : fres) : string :=
   end.
 Definition check (rs : list rune) : string := digest (show_fres (format_res rs)).
 Definition full (rs : list rune) : string := show_fres (format_res rs).
-Eval vm_compute in ("<<<M3682>>>" ++ check (runes_of_ascii "
-packet Foo	{  @lengthOf(
-
-    chars
-)
-@leftPad	( 
-  //x
-
-  ) repeat metadata
-    // @lengthOf(
-	  // c
-	{
-    // packet A { u8 x, }
-  // " ++ [128512]%N ++ runes_of_ascii " emoji
-
-  _x , 
-u body
-
-    ,
-    match
-A as
-Logon	{ [ ""\" ++ [233]%N ++ runes_of_ascii """ , 
-10
-    , 7  ,
-"""" , 0
-
-//
-// @lengthOf(
-    ]  
-  // packet A { u8 x, }
-  : stringy
-,""" ++ [128512]%N ++ runes_of_ascii """
-	// `tick` ""quote"" 'q'
-  :
-
-msg_type  ,	}
-,uint16  asx@calculatedFrom(  """ ++ [233]%N ++ runes_of_ascii "t" ++ [233]%N ++ runes_of_ascii """
-	) ,
-    }
-
-    ,
-    @lengthOf(
-metadata) match 
-matchKey
-    as
-
-o 
-      //x
-
-// `tick` ""quote"" 'q'
-	{[65535
-	,255
-	]
-
-    : rootA , 
-} 
-, @lengthOf(
-Z9_
-)
-
-match  Header  as o
-{
-
-    4294967296 : pack
-,
-65535 
-:  MetaDataX
-,
-	""CRC32"" :
-
-leftPad
-    ,
-    [
-""{,}"" 
-]
-    : 
-calculatedFrom
-, 	 //x
-
-""" ++ [28040; 24687]%N ++ runes_of_ascii """// packet A { u8 x, }
-    	:o 
-""a\\"" :u
-    ,  } , @tag(  42
-)  @lengthOf( 
-options1)
-
-@lengthOf(
-	o
-
-) // c
-  match options1  // `tick` ""quote"" 'q'
-    	as
-
-uint8x
-    {
-[
-        //x
-	  // " ++ [27880; 37322]%N ++ runes_of_ascii "
-1 
-,
-	""CRC32""
-    ,  ""a\\""
-, 
-    //x
-	// c
-    1,
-	""// no comment""
-	,007]
-    // a // b
-  // `tick` ""quote"" 'q'
-
-  :
-
-    int	0: repeatCount,
-    0123456789
-    :  f32a [ 
-    //x
-		// @lengthOf(
-
-	255 ,	""\" ++ [233]%N ++ runes_of_ascii """  ,""a\\""
-
-]
-:  asx 
-, 1 :
-
-    Header 
-      // trailing space 
-	, } 
-,
-	match tag
-as	_x 	 // a // b
-	  {	00 :
-lengthOf	, 	 // " ++ [27880; 37322]%N ++ runes_of_ascii "
-	}
-
-    ,
-	repeat	char[]
-i64_
-,
-
-    match
-
-    // " ++ [27880; 37322]%N ++ runes_of_ascii "
-  msg_type 
-as
-Pad // c
-{  // a // b
-
-	""// no comment""
-
-:	asx
-
-,  [
-    """ ++ [28040; 24687]%N ++ runes_of_ascii """
-
-,	""\" ++ [233]%N ++ runes_of_ascii """
-	]  // c
-		:  x
-	,
-
-0
-
-:
-	u , /// triple
-      10:Foo
-
-    ,  }
-    , 
-
-    // trailing space 
-	/// triple
-  	@rightPad(  ) 
-    //	t
-u8x,
-    @leftPad
-	(	'\x00'
-	) u64	crc
-@calculatedFrom(
-
-    ""`tick`"" 
-)	`
-`
-,
-
-@lengthOf(	rootA) zchar[
-00
-]roots,
-}MetaData
-
-    MetaDataX	{ 
-} packet
-
-    len // " ++ [27880; 37322]%N ++ runes_of_ascii "
-  {
-	repeat
-
-Z9_//x
-    	{
-
-    i8 
-    //
-i8i8 ,	}
-
-    ,	match	repeatCount
-
-    as  
-  // trailing space 
-	// " ++ [27880; 37322]%N ++ runes_of_ascii "
-	asx
-{	""{,}"":tag
-    , 65535// trailing space 
-:	Foo 
-,
-7:
-
-    f32a ,  [
-""" ++ [28040; 24687]%N ++ runes_of_ascii """
-
-    ,
-
-    0 ] :	//	t
-    T
-    ,[00
-
-    ,
-
-    """ ++ [128512]%N ++ runes_of_ascii """ 
-    // " ++ [27880; 37322]%N ++ runes_of_ascii "
-    ] :
-    x_y_z 0123456789 :
-
-    MetaDataX
-
-    ,
-	}
-    , 
-char[
-	007
-	] 
-x
-    `" ++ [233]%N ++ runes_of_ascii "`
-    //	t
-	// " ++ [27880; 37322]%N ++ runes_of_ascii "
-  ,
-	@leftPad (
-    )  i16 
-Logon
-    @lengthOf( MetaDataX )
-
-,}packet u8x{ } ")).
-Eval vm_compute in ("<<<M3513>>>" ++ check (runes_of_ascii "options { // c1
-LittleEndian
-    // c2
-= // c3
-false ; // c5a
-  // c5b
-StringPrefixLenType // c6a
-  // c6b
-=
-    // c7
-u16
-    // c8
-; ArrayPrefixLenType
-    // c10
-= // c11
-u32 // c12a
-  // c12b
-;
-    // c13
-} packet Order // c16
-{ uint8 x // c19a
-  // c19b
-, // c20a
-  // c20b
-repeat // c21
-string venue // c23a
-  // c23b
-,
-    // c24
-} // c25a
-  // c25b
-packet // c26a
-  // c26b
-Heartbeat
-    // c27
-{ // c28
-i64 // c29
-count
-    // c30
-, // c31a
-  // c31b
-zchar[ // c32a
-  // c32b
-1 // c33
-] Qty , // c36
-repeat
-    // c37
-InX29 // c38a
-  // c38b
-{ // c39a
-  // c39b
-InSeqno26
-    // c40
-{ // c41
-int64 // c42
-f1 // c43
-, char[ // c45
-5
-    // c46
-] Acct // c48a
-  // c48b
-,
-    // c49
-Order
-    // c50
-, } , // c53a
-  // c53b
-repeat InSide285 { // c56a
-  // c56b
-repeat // c57a
-  // c57b
-Order , // c59a
-  // c59b
-char[ 10 // c61
-]
-    // c62
-Px // c63a
-  // c63b
-, zchar[ // c65
-9 // c66
-] // c67a
-  // c67b
-OrderId , }
-    // c70
-, // c71a
-  // c71b
-char[] // c72a
-  // c72b
-venue
-    // c73
-, Order // c75
-, }
-    // c77
-,
-    // c78
-@rightPad // c79a
-  // c79b
-(
-    // c80
-'\x00' // c81
-) // c82
-char[ // c83a
-  // c83b
-4 // c84
-] // c85a
-  // c85b
-clOrdID // c86
-,
-    // c87
-}
-    // c88
-root // c89
-packet
-    // c90
-Party // c91a
-  // c91b
-{ zchar[
-    // c93
-3 // c94a
-  // c94b
-] f1 , // c97
-u32
-    // c98
-clOrdID , u32
-    // c101
-Px
-    // c102
-@lengthOf( // c103a
-  // c103b
-Body // c104
-)
-    // c105
-,
-    // c106
-match // c107a
-  // c107b
-clOrdID // c108a
-  // c108b
-as Body
-    // c110
-{ // c111a
-  // c111b
-[
-    // c112
-180
-    // c113
-, // c114a
-  // c114b
-64 // c115a
-  // c115b
-]
-    // c116
-: Heartbeat , 11 :
-    // c121
-Order , // c123
-} // c124a
-  // c124b
-,
-    // c125
-u32
-    // c126
-Side2 @calculatedFrom( // c128
-""CRC32"" )
-    // c130
-, } // c132
-")).
-Eval vm_compute in ("<<<M3980>>>" ++ check (runes_of_ascii "// " ++ [128512]%N ++ runes_of_ascii " emoji
-packet options1 {
-    match MetaDataX as matchKey {
-        4294967296 : i8i8,
-        7 : Header,
-    },
-    crc Pad `doc`,
-    @leftPad()
-    repeat o f32a `u8 x,`,
-    @lengthOf(calculatedFrom)
-    repeat int32 body,// trailing space 
-    @tag(0123456789)
-    @tag(42)
-    @calculatedFrom(""\n"")
-    Foo {
-        A,//x
-    },
-    @tag(3)
-    @tag(3)
-    char Header `it's`,
-    repeat float {
-        char[007] u8x `tab	here`,
-        f32a {
-            // packet A { u8 x, }
-            match As as MetaDataX {
-                4294967296 : u,
-                1 : Pad,
-                // " ++ [128512]%N ++ runes_of_ascii " emoji
-                //x
-                3 : x_y_z,
-                """ ++ [28040; 24687]%N ++ runes_of_ascii """ : asx,
-                1 : matchKey,
-                """" : leftPad,
-            },
-            repeat i16 float `u8 x,`,
-            match chars as int {
-                """" : rootA,
-                // c
-                ""packet"" : f32a,
-                [3, 4294967296, ""a	b"", """ ++ [28040; 24687]%N ++ runes_of_ascii """] : Packet,
-                [
-                    0123456789, 255, 00, ""a\""b"", ""a	b"",
-                    ""\n"", ""a	b"", ""1""
-                ] : stringy,
-                0123456789 : lengthOf,
-                10 : i64_,
-            },
-            matchKey {
-                // a // b
-                //	t
-                repeat int16 zchar `crlf
-                line`,
-            },
-        },
-    },
-    repeat Pad {
-        float32 trueish `// not a comment`,
-    },
-    repeat char[0] i64_ `say ""hi""`,
-    @tag(65535)
-    // c
-    u128,
-}")).
-Eval vm_compute in ("<<<M3783>>>" ++ check (runes_of_ascii "options {
-    uint8x = u64;
-    crc = '0'
-    // @lengthOf(
-    // " ++ [128512]%N ++ runes_of_ascii " emoji
-    MetaDataX = '0';
-    len = '0'
-}
-
-MetaData matchKey {
-}
-
-packet i64_ {
-    BodyLength `tab	here`,
-    @tag(00)
-    repeat string_,
-    @calculatedFrom(""" ++ [28040; 24687]%N ++ runes_of_ascii """)
-    @leftPad('0')
-    crc @calculatedFrom(""" ++ [233]%N ++ runes_of_ascii "t" ++ [233]%N ++ runes_of_ascii """),
-    @tag(1)
-    zchar[007] packetx `
-    `,
-    @leftPad('0')
-    x @calculatedFrom(""packet""),
-    @lengthOf(A)
-    @calculatedFrom(""{,}"")
-    @rightPad('0')
-    string Header `say ""hi""`,
-    @lengthOf(u8x)
-    x Header `doc`,
-}
-
-packet uint8x {
-    @leftPad('\x00')
-    @lengthOf(leftPad)
-    BodyLength u,
-}
-
-root packet A {
-    @rightPad('\x00')
-    @lengthOf(leftPad)
-    char[4294967296] A @calculatedFrom(""// no comment""),
-    @tag(42)
-    @calculatedFrom(""packet"")
-    @calculatedFrom(""" ++ [128512]%N ++ runes_of_ascii """)
-    repeat Z9_ `" ++ [28040; 24687; 31867; 22411]%N ++ runes_of_ascii "`,
-    rootA crc,
-    Header,
-    char[4294967296] charz `{ , }`,
-    @calculatedFrom(""\n"")
-    @calculatedFrom(""it's"")
-    u64 stringy `" ++ [233]%N ++ runes_of_ascii "`,
-    repeat options1 {
-        body {
-            lengthOf @calculatedFrom(""a\\""),
-            options1 {
-                repeat chars leftPad `two words`,
-            },
-        },
-        repeat char[] _x,
-        zchar[3] options1,
-    },
-    @lengthOf(packetx)
-    @leftPad(' ')
-    @lengthOf(rootA)
-    float Packet,
-    @tag(7)
-    repeat u8 matchKey,
-}")).
-Eval vm_compute in ("<<<M534>>>" ++ check (runes_of_ascii "  packet roots
-    {
-@lengthOf(
-    a1
-)
-    //x
-    uint32 stringy `it's` ,
-@tag( 0  ) string a1
-//	t
-//x
-,match len as zchar {
-    // @lengthOf(
-    42 : lengthOf ,""" ++ [233]%N ++ runes_of_ascii "t" ++ [233]%N ++ runes_of_ascii """ : len """"
-: Z9_
-    ,} ,  @calculatedFrom(
-    ""{,}""  ) // " ++ [128512]%N ++ runes_of_ascii " emoji
-@tag(
-    42 )rootA @lengthOf( repeatCount ) `" ++ [233]%N ++ runes_of_ascii "` // `tick` ""quote"" 'q'
-,  BodyLength
-    {
-    f64 tag `u8 x,`
-    ,
-    //
-    }	,	zchar[
-255 ]
-f32a `
-` , @lengthOf( rootA )
-a1 , @calculatedFrom( """ ++ [28040; 24687]%N ++ runes_of_ascii """ ) repeat u32  As `doc` ,	} packet o
-{ repeat uint8
-    A ,
-    }MetaData u128{ int64 //	t
-x_y_z `doc` , }options { asx // @lengthOf(
-= 65535
-; metadata //
-= u32; pack = zchar[
-    0123456789 ] }root
-packet
-lengthOf
-{
-@leftPad( '0' )
-    @calculatedFrom(
+Eval vm_compute in ("<<<M32>>>" ++ check (runes_of_ascii "packet Logon{
+f32a
 // " ++ [27880; 37322]%N ++ runes_of_ascii "
-//x
-""it's"" ) int@calculatedFrom( ""`tick`"")
-,i32 len
-, @leftPad
-( '\x00'
-    )repeat	char[]falsey , @tag( 255
-)
-i32
-lengthOf
-    @lengthOf( MetaDataX )  , match int as A { 10
-:
-body ,	""abc"" :
-    a1
-,  }, metadata `a\`, int32 uint8x @lengthOf( repeatCount )
-    ,@leftPad( )crc  body
-,
-    repeat
-T
-{
-    // " ++ [128512]%N ++ runes_of_ascii " emoji
-    float64 x,
-char[] tag
-    // trailing space 
-    `say ""hi""`  , repeat Header { char[] string_ `say ""hi""`  ,Z9_
-, }
-, // " ++ [128512]%N ++ runes_of_ascii " emoji
-}
-    //x
-    ,	}
-")).
-Eval vm_compute in ("<<<M4176>>>" ++ check (runes_of_ascii "packet chars {
-    i8 Z9_,
-    match zchar as Logon {
-        00 : i8i8,
-        [
-            42, 10, 4294967296, ""// no comment"", ""it's"",
-            ""`tick`"", ""x y"", ""a\""b""
-        ] : leftPad,
-        [""\" ++ [233]%N ++ runes_of_ascii """] : A,
-        [""abc"", ""1""] : zchar,
-        3 : x,
-        3 : x_y_z,
-    },
-    uint8x @calculatedFrom(""{,}""),
-}// `tick` ""quote"" 'q'
-
-packet calculatedFrom {
-    int32 T,
-    @lengthOf(float)
-    f32a len,
-    @calculatedFrom(""" ++ [233]%N ++ runes_of_ascii "t" ++ [233]%N ++ runes_of_ascii """)
-    int32 f32a @lengthOf(matchKey) `" ++ [233]%N ++ runes_of_ascii "`,
-    charz @calculatedFrom(""x y""),
-}
-
-root packet stringy {
-    @lengthOf(Logon)
-    int64 len @calculatedFrom(""CRC32""),
-    T @calculatedFrom(""1"") `line1
-    line2`,
-    @tag(255)
-    @tag(7)
-    @tag(007)
-    repeat packetx len,
-    @tag(1)
-    repeat zchar[0] float,//
-    @lengthOf(lengthOf)
-    repeat x_y_z {
-        char[10] u `
-        `,
-        MetaDataX a1 `u8 x,`,
-    },
-    @tag(1)
-    string repeatCount `" ++ [28040; 24687; 31867; 22411]%N ++ runes_of_ascii "`,
-    int8 int @calculatedFrom(""// no comment""),
-}
-
-packet asx {
-    @leftPad('\x00')
-    char[00] u8x @calculatedFrom(""" ++ [233]%N ++ runes_of_ascii "t" ++ [233]%N ++ runes_of_ascii """),
-    zchar[007] asx @calculatedFrom(""" ++ [128512]%N ++ runes_of_ascii """),
-    repeat MetaDataX metadata `
-    `,
-}")).
-Eval vm_compute in ("<<<M4409>>>" ++ check (runes_of_ascii "
-root packet
-
-    asx  // trailing space 
-	{trueish
-lengthOf
-    `line1
-line2`
-
-    ,
-@rightPad
-
-( )
-    @rightPad
-	(
-'0' )
-char[]
-a1
-	, 
-} 
-packet metadata {
-stringy  `say ""hi""`
-
-,  @lengthOf( 
-int
-
-)
-
-match u8x  as
-zchar
-{
-	""" ++ [128512]%N ++ runes_of_ascii """
-    : repeatCount
-,00
-
-    :
-
-Header,
-
-4294967296
-    : As
-, 
-    //	t
-    255 
-:
-
-//x
-    	u8x
-, [//	t
-    	0123456789
-    ]: 
-    // packet A { u8 x, }
-	pack// `tick` ""quote"" 'q'
-  , }	, @calculatedFrom(""" ++ [233]%N ++ runes_of_ascii "t" ++ [233]%N ++ runes_of_ascii """
-)
-repeat
-    x_y_z
-{ u16
-len 
-`say ""hi""`
-,
-},@tag(
-
-    007 
-) @leftPad
-
-    ( 
-'0'  // @lengthOf(
-
-	)
-match
-
-options1
-	as float { [ ""CRC32""	,  ""CRC32""] :x_y_z
-    ,
-
-    0 :
-
-tag
-
-    255 : Logon
-,	//	t
-	  42	:  string_ }	// c
-
-,
-repeat
-
-zchar[ 007] 
-u,
-
-    T{ 	 //x
-	char[]	asx
-    ,
-
-    match trueish
-    as
-    A
-	{""1""
-: tag ,  [
-	""{,}"" ,
-7
-]  : Logon
-
-,
-	4294967296	:	calculatedFrom
-	, ""it's"" :
-uint8x ,
-
-}
-
-    ,
-
-}
-,@leftPad
-    ( )	match
-
-x_y_z 
+// " ++ [128512]%N ++ runes_of_ascii " emoji
+@lengthOf(
+x ) `u8 x,` ,
+@calculatedFrom(
+    // `tick` ""quote"" 'q'
+    ""a\""b"" // trailing space 
+) @rightPad( '0'
+)repeat int8
+u128`doc` , match packetx //x
 as
-Packet {[  """ ++ [28040; 24687]%N ++ runes_of_ascii """, 
-4294967296 ] :
-int
-, }
-
-    , char[]
-
-int @calculatedFrom(	""\" ++ [233]%N ++ runes_of_ascii """
-
-    ) 	 //	t
-      `" ++ [233]%N ++ runes_of_ascii "` ,
-}
-")).
-Eval vm_compute in ("<<<M3566>>>" ++ check (runes_of_ascii "//	t
-MetaData i8i8 {
-    char packetx `
-        `,
-    char[] Header `" ++ [233]%N ++ runes_of_ascii "`,
-    u32 options1,
-    Header i8i8 `two words`,
-}
-
-root packet Header {
-    match falsey as pack {
-        // c
-        ""CRC32"" : crc,
-    },
-    o rootA,
-    match rootA as u {
-        [255, ""\n""] : metadata,
-        42 : uint8x,
-        [""" ++ [128512]%N ++ runes_of_ascii """] : float,
-        // " ++ [128512]%N ++ runes_of_ascii " emoji
-        ""\n"" : u,
-        3 : MetaDataX,
-    },
-    @leftPad('\x00')
-    float64 Packet @calculatedFrom(""abc"") `say ""hi""`,
-    repeat u8x,
-    @lengthOf(msg_type)
-    uint8x {
-        packetx repeatCount,
-        asx @calculatedFrom(""x y""),
-        zchar[007] u `say ""hi""`,
-    },
-    repeat i16 calculatedFrom `
-        `,
-    int16 T @calculatedFrom(""a	b""),
-    @rightPad()
-    char[00] Foo @lengthOf(pack) `tab	here`,
-    uint8x `" ++ [28040; 24687; 31867; 22411]%N ++ runes_of_ascii "`,
-}
-
-options {
-    x_y_z = 255;
-    metadata = ""CRC32"";
-    leftPad = ""{,}"";
-    u128 = true
-    tag = string;
-}
-
-root packet x_y_z {
-    @lengthOf(body)
-    int32 Z9_ @calculatedFrom(""{,}"") `" ++ [28040; 24687; 31867; 22411]%N ++ runes_of_ascii "`,
-}")).
-Eval vm_compute in ("<<<M3677>>>" ++ check (runes_of_ascii "
-
-  packet  i8i8{
-
-@leftPad  
-      // c
-	( 	 // " ++ [128512]%N ++ runes_of_ascii " emoji
-	'0'
-	    // @lengthOf(
-
-	)
-i16
-    int, 
-@calculatedFrom(""\n""
-	) crc
-
-@calculatedFrom(
-""abc"" //	t
-		)
-    , 
-	// packet A { u8 x, }
-	int16
-
-    trueish `it's`,// trailing space 
-	@rightPad
-( ' '  ) 
-@tag(3
-
-    )
-
-@calculatedFrom(
-
-    """"
-
-) 
-pack	{
-
-i64_
-falsey ,	i8i8
-repeatCount 
-,  repeat u16
-    pack ,
-u128
-    //x
-    	// " ++ [27880; 37322]%N ++ runes_of_ascii "
-  @calculatedFrom(
-
-    ""it's""
-)
-`" ++ [233]%N ++ runes_of_ascii "` 
-,}
-
+a1 { [
+    // " ++ [27880; 37322]%N ++ runes_of_ascii "
+    65535, """ ++ [128512]%N ++ runes_of_ascii """ ]
+: packetx	,00 : x
 ,
-@calculatedFrom( 
-""1"" 
-)	match
-	i64_
-
-as  a1
-{
-
-    42 
-: MetaDataX,	[ 
-""{,}""
-
-, ""abc"" 
-,	""`tick`""
-, 10
-
-]:asx	, 	 //
-65535 :
-string_
-}//x
-,
-    @calculatedFrom( """ ++ [128512]%N ++ runes_of_ascii """  )@lengthOf(_x ) @rightPad	(' '
-)
-
-    x{ 	 // packet A { u8 x, }
-  f32 tag
-
-    @lengthOf(  calculatedFrom )  ,
-u32
-    Logon`" ++ [28040; 24687; 31867; 22411]%N ++ runes_of_ascii "` ,
-
-},  @lengthOf(// " ++ [128512]%N ++ runes_of_ascii " emoji
-  zchar
-
-    )
-Packet  matchKey, 
-@leftPad  /// triple
-    ('0'
-    )	f32 
-charz`
-`	//x
-	,
-	@rightPad ('0') char[
-3
-
-]
-
-stringy  `tab	here` ,
-
-}")).
-Eval vm_compute in ("<<<M1084>>>" ++ check (runes_of_ascii "packet
-lengthOf { crc @calculatedFrom(
-"""" )  `two words` , @lengthOf(crc )
-    // c
-    @calculatedFrom( ""x y""
-    ) u16 Logon
-`line1
-line2`
-    ,
-    } MetaData u128{ } packet
-len {  match
-    options1 as pack { 00
-: BodyLength, }, @calculatedFrom( ""a	b""
-) asx Z9_ `` , @rightPad	( ) u32 calculatedFrom @lengthOf( asx)`doc`
-    , @calculatedFrom(
-    """ ++ [28040; 24687]%N ++ runes_of_ascii """	)uint8x , repeat zchar[ // " ++ [128512]%N ++ runes_of_ascii " emoji
-007 ]u128 ,
-    stringy { repeat zchar[ 3 ] A
-, repeat i64 o/// triple
-`` ,
-f32// @lengthOf(
-packetx
-    @calculatedFrom( ""\" ++ [233]%N ++ runes_of_ascii """ ) , packetx charz ,	}, match int as Z9_ { ""a\\"" :	crc
-// " ++ [128512]%N ++ runes_of_ascii " emoji
-// " ++ [128512]%N ++ runes_of_ascii " emoji
-, """"
-    /// triple
-    : trueish , [00 , ""\" ++ [233]%N ++ runes_of_ascii """  , 4294967296 ] : Packet
-,}
-    ,
-/// triple
-// packet A { u8 x, }
-u8
-// packet A { u8 x, }
-/// triple
-msg_type
-// @lengthOf(
-//
-@lengthOf(i64_ ) ,} root packet A{BodyLength @lengthOf( stringy ) ,
-    rootA
-As ,
-repeat BodyLength options1	`a\` ,}")).
-Eval vm_compute in ("<<<M721>>>" ++ check (runes_of_ascii "
-packet a1 { @lengthOf( packetx ) A @lengthOf( T ) `tab	here`,zchar[// " ++ [128512]%N ++ runes_of_ascii " emoji
-42
-    //x
-    ] Header, // " ++ [128512]%N ++ runes_of_ascii " emoji
-@leftPad ( '0'
-)
-    match
-o
-as int
-    { 1 :
-    Logon ,} //x
-, repeat// trailing space 
-packetx `line1
-line2` ,string x
-    @calculatedFrom(
-    ""CRC32"" )
-, i8 repeatCount
-    `// not a comment` , match i64_ // a // b
-as x_y_z
-{
-    3
-:
-len , 4294967296
-    : u8x
-00	: crc
-,[ 10,
-007 ,3, 00
-/// triple
-// " ++ [27880; 37322]%N ++ runes_of_ascii "
-,""" ++ [128512]%N ++ runes_of_ascii """ , 0123456789,0123456789	] : tag	,	42  :
-// packet A { u8 x, }
-//
-repeatCount , }
-, @lengthOf( f32a
-    ) @lengthOf(
-    stringy ) @calculatedFrom( ""\" ++ [233]%N ++ runes_of_ascii """
-)
-    repeat i64 As// trailing space 
-,	@rightPad (
-    ) repeat  leftPad {
-uint32 crc
-    @calculatedFrom( """ ++ [233]%N ++ runes_of_ascii "t" ++ [233]%N ++ runes_of_ascii """) ,  }
-    , } MetaData Pad {  As
-pack ,
-    } root packet len{@calculatedFrom(  ""\" ++ [233]%N ++ runes_of_ascii """
-) int64 a1@calculatedFrom( ""CRC32"" )// `tick` ""quote"" 'q'
-,
-}
 // c
+// @lengthOf(
+} ,
+    @calculatedFrom(""" ++ [28040; 24687]%N ++ runes_of_ascii """ )match
+leftPad as lengthOf /// triple
+{ 0
+: packetx, [
+    ""{,}"" // `tick` ""quote"" 'q'
+,  0,
+""CRC32"" , 4294967296
+]
+    :
+    // @lengthOf(
+    int
+, """ ++ [28040; 24687]%N ++ runes_of_ascii """:A, [ 7
+, 0  ,
+""abc"" ,""CRC32"" ,""x y""// c
+,
+    //	t
+    255
+// a // b
+// " ++ [27880; 37322]%N ++ runes_of_ascii "
+, 007
+, 1 // @lengthOf(
+]	: _x } ,matchKey@lengthOf(tag ) , string BodyLength
+    @calculatedFrom( ""packet""	)
+/// triple
+// a // b
+, As @lengthOf(i8i8 ) `a\`
+,int16 A@lengthOf( tag ) `// not a comment`
+// " ++ [128512]%N ++ runes_of_ascii " emoji
+//
+,
+}
+MetaData metadata
+//	t
+// " ++ [128512]%N ++ runes_of_ascii " emoji
+{
+u32
+// c
+// a // b
+a1 ,  u16 BodyLength `tab	here` // " ++ [128512]%N ++ runes_of_ascii " emoji
+, int8
+lengthOf// " ++ [27880; 37322]%N ++ runes_of_ascii "
+,
+    // " ++ [128512]%N ++ runes_of_ascii " emoji
+    trueish x_y_z ,charz leftPad //
+,} MetaData leftPad {	} packet rootA
+{ match
+    x
+as
+    int
+    {0123456789// `tick` ""quote"" 'q'
+: u8x
+    ,
+    0123456789
+    :  tag
+    ,	} , @lengthOf(A )
+repeat
+f32 body `a\` ,// trailing space 
+i64	rootA
+    // packet A { u8 x, }
+    , @tag(007 ) match // @lengthOf(
+Logon as metadata
+    {
+[""a	b"", // `tick` ""quote"" 'q'
+65535
+, ""abc"", 3 ,
+10 , ""\" ++ [233]%N ++ runes_of_ascii """
+]
+    // packet A { u8 x, }
+    :u128, 7
+: // packet A { u8 x, }
+zchar, 7 : stringy
+    , 007
+    :  string_ , """" : //x
+a1 , }
+,// c
+i8
+lengthOf// trailing space 
+, float64 pack @calculatedFrom(""" ++ [128512]%N ++ runes_of_ascii """
+) ,  repeatCount @calculatedFrom(
+""// no comment"") , float // c
+string_ , @leftPad // c
+(
+    '0' ) @calculatedFrom( ""a	b"" )@calculatedFrom( ""\" ++ [233]%N ++ runes_of_ascii """ ) // `tick` ""quote"" 'q'
+match
+    Logon as
+    // @lengthOf(
+    msg_type {	255 : roots, 255: x_y_z
+// c
+// packet A { u8 x, }
+,	""it's""  :
+len,[00 ,
+    // packet A { u8 x, }
+    42
+    , ""\n"" ,007
+    , ""1""
+,//
+""a\\"" , ""a\\""] :
+f32a [
+    42,	""a	b""
+/// triple
+//
+]  :
+    Header, [ """" , ""\" ++ [233]%N ++ runes_of_ascii """// `tick` ""quote"" 'q'
+]
+    : //
+tag , } , // packet A { u8 x, }
+int , }
+    options // c
+{uint8x = // @lengthOf(
+""\n"" ;}
 ")).
-Eval vm_compute in ("<<<M3997>>>" ++ check (runes_of_ascii "root
+Eval vm_compute in ("<<<M3962>>>" ++ check (runes_of_ascii "MetaData
+	x	{string_
+x
+`tab	here`
+,
+	}
+packet
+
+    u { @tag(  1
+)  match
+x
+as
+
+    Z9_
+
+{ 
+""a\""b""
+:
+asx	}	, 	 // " ++ [128512]%N ++ runes_of_ascii " emoji
+    leftPad@calculatedFrom(	""it's"")  `" ++ [28040; 24687; 31867; 22411]%N ++ runes_of_ascii "`  ,	//	t
+    	@tag(
+10)
+    Packet
+,u64 
+        //x
+    // a // b
+
+stringy
+
+@calculatedFrom(
+
+    ""1"" )
+`doc`  , char[
+3
+	]  // " ++ [128512]%N ++ runes_of_ascii " emoji
+x_y_z@lengthOf( lengthOf )
+`" ++ [28040; 24687; 31867; 22411]%N ++ runes_of_ascii "`
+
+    , 
+} root packet 
+Pad
+	{ int8
+    Header @calculatedFrom(
+	""1"" )  `u8 x,` , @calculatedFrom(	""" ++ [128512]%N ++ runes_of_ascii """ 	 // packet A { u8 x, }
+    	)
+
+int64 BodyLength 
+`u8 x,`,
+
+@leftPad (	' ' 
+// a // b
+	)  char[] float
+    , 
+@lengthOf(  //x
+    	repeatCount
+)
+char[]  repeatCount 
+,
+
+}
 
     packet
-
-x
-	{ 
-f32
-
-    uint8x@calculatedFrom( 
-""it's""
-	),
-
-@calculatedFrom(	""CRC32"")
-    uint8x 
-
-// packet A { u8 x, }
-// c
-`line1
-line2` ,
-    match 
-// packet A { u8 x, }
-	uint8x	as
-	falsey{
-
-0: chars	""" ++ [128512]%N ++ runes_of_ascii """	// packet A { u8 x, }
-		: roots,
-	0123456789 :stringy
-,
-""x y""  :Logon
-,
-}  ,
-    } 
-packet	metadata	{ 
-match	calculatedFrom
-as
-	repeatCount // c
-  {
-    ""it's""
-:
-    calculatedFrom
-4294967296:
-int
-	, }
-
-    ,  string
-
-packetx,
-match
-
-T	// " ++ [128512]%N ++ runes_of_ascii " emoji
-
-as
-
-pack
-{ 
+    falsey 
+    //
 // `tick` ""quote"" 'q'
+      { 
+@calculatedFrom(
+	""" ++ [28040; 24687]%N ++ runes_of_ascii """ )@rightPad(
 
-// packet A { u8 x, }
-    ""it's""
-    :
-//
-    Z9_ ,
+    ) @leftPad  // c
+  (
 
-    00
-:
-    Packet 
-,""""  :
-    leftPad  ,
-    [	65535
-]:pack ,  }	,
-}
-	// " ++ [128512]%N ++ runes_of_ascii " emoji
-      MetaData zchar{
+    '\x00'	)
+    zchar[3]  i8i8 `tab	here`,
+    } 
+	    //x
 
-Logon
-	uint8x`" ++ [233]%N ++ runes_of_ascii "` 
-,
-    stringy
-leftPad ,
-	char[]  // packet A { u8 x, }
-    As  `" ++ [28040; 24687; 31867; 22411]%N ++ runes_of_ascii "`	,
+	// packet A { u8 x, }
+packet zchar {  Header 
+@calculatedFrom( ""a\\""
+	)
 
-_x
+    , 	 // a // b
+    	msg_type `` ,@calculatedFrom( """ ++ [28040; 24687]%N ++ runes_of_ascii """  )	Logon zchar
 
-trueish `two words`
     ,
-	u8
-o
-`
-`
-, }
-")).
-Eval vm_compute in ("<<<M1071>>>" ++ check (runes_of_ascii "packet BodyLength {@calculatedFrom( ""1""
-)@tag( 10
-)
-    @lengthOf(
-Pad
-) char[0123456789  ] asx `" ++ [233]%N ++ runes_of_ascii "`
-    ,	char[]	msg_type
-    @calculatedFrom(
-""""	) , @tag(
-4294967296 )repeat a1 {char[ 007
-// c
-//x
-]
-Logon
-`crlf
-line`,
-    // a // b
-    u32
-    trueish `u8 x,` ,
-match	Z9_	as body {
-""1"" :	Packet, 0 :
-x, } ,int16 options1 `" ++ [233]%N ++ runes_of_ascii "`
-, }
-    , }options
-{ rootA = true ; // @lengthOf(
-uint8x =
-' ' matchKey
-= char[]
-    ; stringy = ' '  options1 = 4294967296 } options {stringy = true
-chars =
-    ' ' }packet T { string Pad @calculatedFrom( ""\" ++ [233]%N ++ runes_of_ascii """
-    ) , //	t
-repeat
-MetaDataX{repeat
-    u32 // `tick` ""quote"" 'q'
-body `line1
-line2` ,string crc
-@lengthOf(
-// trailing space 
-// " ++ [27880; 37322]%N ++ runes_of_ascii "
-As
-) `" ++ [28040; 24687; 31867; 22411]%N ++ runes_of_ascii "`
-    , } , /// triple
-repeat
-// c
-// trailing space 
-float32 Header
-    `a\` , float`a\`  , }")).
-Eval vm_compute in ("<<<M573>>>" ++ check (runes_of_ascii "packet pack
-    // `tick` ""quote"" 'q'
-    {@lengthOf(
-charz ) repeat
-int64 x_y_z  , @calculatedFrom(  ""abc"" )Z9_ //	t
-{ options1@lengthOf( i64_ ) , string stringy `tab	here` , } , @rightPad ( ) chars	uint8x
-`" ++ [233]%N ++ runes_of_ascii "` ,@tag(1)match
-asx as string_{	00	:
-    Header, [
-// c
-// c
-42, 1 ,
-    ""\" ++ [233]%N ++ runes_of_ascii """ , """ ++ [233]%N ++ runes_of_ascii "t" ++ [233]%N ++ runes_of_ascii """ , 255,
-    """ ++ [128512]%N ++ runes_of_ascii """
-    // " ++ [27880; 37322]%N ++ runes_of_ascii "
-    ] : chars , // trailing space 
-""" ++ [28040; 24687]%N ++ runes_of_ascii """
-:rootA	[ 0123456789 , 4294967296 ,
-""x y""
+
+i32 u128@calculatedFrom( ""packet"" )
+	// packet A { u8 x, }
+  /// triple
 ,
-7 ,""\" ++ [233]%N ++ runes_of_ascii """ , 10
-    ,""{,}""
+        // `tick` ""quote"" 'q'
+  // c
+  u8	_x  `
+` ,	@leftPad (
+	'0'	) uint16
+asx
+`a\` ,  @calculatedFrom(
+	""\n"")
+@calculatedFrom( ""a	b""
+
+    )
+float64
+	leftPad@lengthOf(
+
+    // c
+
+  repeatCount 
+      /// triple
+    	//
+)`it's`
+	,	match 
+metadata  as
+
+options1	{[42,
+    1
+
+    ]  // `tick` ""quote"" 'q'
+  :
+
+BodyLength  ""`tick`""  :_x ,
+
+65535	:
+
+asx ,  65535
+	:
+	BodyLength 
+""a\\""
+
+    :
+	    //
+
+	string_ }
+	, match
+/// triple
+//
+    uint8x  as
+	chars
+{
+10
+:	/// triple
+	Logon	""// no comment""
+	: float ,	/// triple
+
+	[ 
+""packet""
+	,
+7 ] :	MetaDataX
+10 
+:
+
+asx 
+,	""" ++ [28040; 24687]%N ++ runes_of_ascii """
+
+    :  i64_
+    ,
+	}
+    , }
+
+")).
+Eval vm_compute in ("<<<M279>>>" ++ check (runes_of_ascii "//x
+root packet
+// `tick` ""quote"" 'q'
+// `tick` ""quote"" 'q'
+i8i8 { u128{ repeat lengthOf Foo //
+`u8 x,`
+,MetaDataX	falsey
+`two words` ,Pad{	u8 a1 @lengthOf( leftPad )
+, }
+    , int @calculatedFrom( // " ++ [128512]%N ++ runes_of_ascii " emoji
+""a\\""
+    ) `
+`
+    ,	}
+    , Header
+Logon , match rootA// c
+as
+    BodyLength
+    // " ++ [27880; 37322]%N ++ runes_of_ascii "
+    { """ ++ [28040; 24687]%N ++ runes_of_ascii """ :	Pad [ """ ++ [233]%N ++ runes_of_ascii "t" ++ [233]%N ++ runes_of_ascii """
     ,
 1
-    //
-    ] :lengthOf ,	} ,
-@calculatedFrom(
-    ""packet"" )zchar[
-65535	]Foo
-`two words`,repeat// " ++ [128512]%N ++ runes_of_ascii " emoji
-zchar[// " ++ [128512]%N ++ runes_of_ascii " emoji
-255
-    ] msg_type
+] : _x , }, options1 `crlf
+line` , repeat u	{ match	i8i8 as falsey
+{// `tick` ""quote"" 'q'
+[ 42 , 4294967296 ]: x_y_z ,42
+:
+    float ,
+// `tick` ""quote"" 'q'
+// c
+3
+    : packetx
+, } , }
+, charz ,
+    }
+    // a // b
+    root packet float
+// @lengthOf(
+// c
+{ repeat _x body `say ""hi""` , charz`// not a comment`,repeat lengthOf{
+repeatCount { repeat
+tag { zchar[ 42  ]
+// a // b
+// " ++ [27880; 37322]%N ++ runes_of_ascii "
+leftPad
+,repeat
+    zchar[0123456789  ]T `crlf
+line`,  char[]
+trueish , zchar[ 007 // " ++ [128512]%N ++ runes_of_ascii " emoji
+]	lengthOf @lengthOf(string_
+)`" ++ [233]%N ++ runes_of_ascii "` ,
+} ,repeat int32 As
+,int8 chars	, i32 calculatedFrom`it's`, } /// triple
+, zchar[ 00 ] chars ``
+, }	,char[255
+] charz @calculatedFrom(""1"" ) `doc` , // packet A { u8 x, }
+match body
+as rootA { ""CRC32"" :	A , [ 007
+    , ""{,}""
     ,
+    0 // `tick` ""quote"" 'q'
+,""1""
+    ,0123456789 ,""// no comment""// " ++ [27880; 37322]%N ++ runes_of_ascii "
+, ""it's"", 1] :
+    BodyLength 65535 : x_y_z [""`tick`""]  : a1 }, repeat	asx{ char[ 0123456789 ]
+    i64_ `" ++ [28040; 24687; 31867; 22411]%N ++ runes_of_ascii "` ,
+    } , @lengthOf(  x_y_z )
+pack
+@calculatedFrom(""" ++ [233]%N ++ runes_of_ascii "t" ++ [233]%N ++ runes_of_ascii """) ,@tag( 3
+// trailing space 
+//
+) repeat uint64 o
+    ,// @lengthOf(
+}")).
+Eval vm_compute in ("<<<M1213>>>" ++ check (runes_of_ascii "packet
+u8x { int8 T,	string
+    msg_type
 @lengthOf(
-rootA) char x // a // b
-@lengthOf( x_y_z )
-, @tag(	255
-) @calculatedFrom( ""{,}""
-) int64 Packet
+    o )
+    , uint64
+pack `tab	here` , chars len  , @lengthOf( u8x )  repeat Packet _x `crlf
+line` // `tick` ""quote"" 'q'
+,@tag(255 ) @tag( 4294967296 ) @rightPad( )	match// c
+metadata
+as pack { // a // b
+""a\""b"" : a1
+// `tick` ""quote"" 'q'
+// " ++ [27880; 37322]%N ++ runes_of_ascii "
+,
+    } ,
+    a1 {match  Foo as trueish { [""a\""b"", ""a\""b""
+] : x
+"""" :
+    tag ,// c
+""1"" :
+Foo ,
+[
+4294967296
+,""`tick`"",65535 , 65535 , 10 ]	:
+_x // " ++ [27880; 37322]%N ++ runes_of_ascii "
+}
+,} ,
+    match	options1 as T{ [
+    3 ] : Z9_//x
+,	[ ""abc""]// trailing space 
+:lengthOf, } ,// c
+leftPad
+`a\`// " ++ [27880; 37322]%N ++ runes_of_ascii "
+,	} packet Packet {
+repeat float64
+    u8x `doc` , match metadata as int{ [ //
+4294967296
+    , // `tick` ""quote"" 'q'
+0123456789 , 007,
+""" ++ [128512]%N ++ runes_of_ascii """ ,
+""1""] : x_y_z
+    ,
+    7
+    :
+int
+    ,  007 :len""" ++ [28040; 24687]%N ++ runes_of_ascii """: string_ ,
+} ,repeat	zchar[ 3 ]  pack `u8 x,`,@leftPad ('0'
+)	char[ 007 ] x_y_z , zchar[ 10 ]u @lengthOf(
+x
+), repeat metadata//
+`" ++ [28040; 24687; 31867; 22411]%N ++ runes_of_ascii "`  , options1
+    { body
+    @calculatedFrom(
+// c
+//	t
+""abc""  )
+    `
+` , string crc  , char[	007	] A , }	,
+@calculatedFrom( ""{,}"" ) @calculatedFrom(
+    ""CRC32"") char[] Foo
+`line1
+line2`, @calculatedFrom( ""`tick`"" ) @rightPad
+( '\x00' ) @tag(
+// `tick` ""quote"" 'q'
+// packet A { u8 x, }
+10
+) zchar[ 007  ] float, // a // b
+repeat
+    zchar[ 10
+]Z9_
+,
+    // " ++ [128512]%N ++ runes_of_ascii " emoji
+    }
+
+")).
+Eval vm_compute in ("<<<M913>>>" ++ check (runes_of_ascii "// packet A { u8 x, }
+root
+    packet
+    u128
+    {
+// packet A { u8 x, }
+// trailing space 
+len T
+`
+`	, match Foo as
+float { 0  : roots , [""`tick`"" ]
+    : //
+_x , } , @rightPad ( '0' ) @calculatedFrom( ""packet""  ) //
+char[] x_y_z
+    `crlf
+line` , i64 msg_type , @rightPad ( ' ' ) @lengthOf( // c
+roots)
+Pad @calculatedFrom( """ ++ [233]%N ++ runes_of_ascii "t" ++ [233]%N ++ runes_of_ascii """)`" ++ [233]%N ++ runes_of_ascii "`	, }
+    packet Logon { repeat len Z9_ , u8x@calculatedFrom( ""a\""b"" ) ,
+    repeat int8 rootA `
+` //
+,string
+//	t
+//	t
+Foo , // c
+@lengthOf( float ) repeat// " ++ [128512]%N ++ runes_of_ascii " emoji
+char[]
+options1  , } root
+packet x
+    { @tag( //x
+1
+    )repeat string_ , f64	lengthOf , @tag( // " ++ [27880; 37322]%N ++ runes_of_ascii "
+4294967296 ) repeat u8x
+len  `" ++ [233]%N ++ runes_of_ascii "`
+,
+//	t
+// `tick` ""quote"" 'q'
+@rightPad
+('\x00'  )@calculatedFrom(
+""CRC32"")
+    @tag( 3 ) falsey
+{
+    uint8 trueish
+    `two words`
+, // `tick` ""quote"" 'q'
+} // @lengthOf(
+,@calculatedFrom( """ ++ [233]%N ++ runes_of_ascii "t" ++ [233]%N ++ runes_of_ascii """ ) // " ++ [27880; 37322]%N ++ runes_of_ascii "
+repeat
+    zchar[00
+] // packet A { u8 x, }
+crc	`two words`,	T // " ++ [128512]%N ++ runes_of_ascii " emoji
+, match i64_ as
+    // " ++ [27880; 37322]%N ++ runes_of_ascii "
+    msg_type	{""{,}"" :
+u8x ""\" ++ [233]%N ++ runes_of_ascii """
+: T , [	7
+] : matchKey,
+""`tick`"" : len , 42 : matchKey
+,
+} , // c
+}
+    options { x= zchar[
+10 ] ; pack  = false
+repeatCount =
+true ; charz
+    = '0' BodyLength = ""// no comment""; }
+
+")).
+Eval vm_compute in ("<<<M4269>>>" ++ check (runes_of_ascii "root packet options1 {
+    repeat u {
+        f64 roots,
+    },
+    zchar falsey `crlf
+    line`,
+    match u as Foo {
+        42 : lengthOf,
+        ""\n"" : crc,
+        [4294967296, 4294967296, 3, ""\" ++ [233]%N ++ runes_of_ascii """, ""x y""] : o,
+    },
+    a1 `crlf
+    line`,
+    @rightPad()
+    char[0123456789] x_y_z `line1
+    line2`,
+    @lengthOf(trueish)
+    i32 A `u8 x,`,
+}
+
+packet packetx {
+    // " ++ [128512]%N ++ runes_of_ascii " emoji
+    match u as u8x {
+        // " ++ [27880; 37322]%N ++ runes_of_ascii "
+        255 : lengthOf,
+        [
+            """ ++ [233]%N ++ runes_of_ascii "t" ++ [233]%N ++ runes_of_ascii """, 7, 00, ""a\\"", 10,
+            0, 007, 3
+        ] : string_,
+        0123456789 : f32a,
+    },// trailing space 
+    stringy @calculatedFrom(""\" ++ [233]%N ++ runes_of_ascii """) `line1
+    line2`,
+    @leftPad()
+    zchar[10] trueish,// packet A { u8 x, }
+}
+
+root packet Logon {
+    i64_ @lengthOf(int) `// not a comment`,
+    @tag(3)
+    match lengthOf as pack {
+        42 : T,
+        255 : int,
+        007 : tag,
+        4294967296 : _x,
+    },
+    @calculatedFrom(""packet"")
+    @tag(10)
+    @tag(65535)
+    zchar[65535] roots,
+    @rightPad(' ')
+    @tag(7)
+    // @lengthOf(
+    string Packet @lengthOf(u) `tab	here`,
+}
+
+packet metadata {
+}
+
+root packet x {
+}")).
+Eval vm_compute in ("<<<M1185>>>" ++ check (runes_of_ascii "packet T { x repeatCount
+`tab	here` ,
+    repeat	a1 `a\`
+, a1 @calculatedFrom( ""CRC32"" ),	repeat string msg_type`// not a comment`, // trailing space 
+} packet
 // @lengthOf(
 // trailing space 
-`
-` ,
-Foo  , }")).
-Eval vm_compute in ("<<<M592>>>" ++ check (runes_of_ascii "options
-{ len=int8 /// triple
-Header
-= '0' ; } packet
-options1 { @calculatedFrom( ""{,}"" ) repeat//
-body , } packet uint8x {  repeat int8 f32a
-,} packet	As {
-    match	u128 as
-    o { 0  :
-    len ,
-    // c
-    }, @calculatedFrom( """" )  zchar // @lengthOf(
-As , zchar[00] u8x	, @lengthOf(u8x )match	stringy as o
-    { [
-    ""1"" , ""\" ++ [233]%N ++ runes_of_ascii """ ]// " ++ [128512]%N ++ runes_of_ascii " emoji
-: repeatCount ,  [ 7,
-    // " ++ [27880; 37322]%N ++ runes_of_ascii "
-    3
-, ""1""
-, 007
-, ""\n"" , 0]
-    : metadata,//	t
-""it's"" : o
-,  00
-    : roots
-, 4294967296 :
-    uint8x  , } , @calculatedFrom(""it's""
+uint8x {zchar[65535 ] //x
+roots,	i64_ stringy
+,zchar[ 0123456789 ]
+tag `" ++ [28040; 24687; 31867; 22411]%N ++ runes_of_ascii "` , @tag( 42) match
+i8i8 as Header {	[ ""// no comment"" ,	""abc"" // c
+,
+    255 ,
+65535/// triple
+] : charz , 00 : /// triple
+Z9_,} ,
+uint8 int	@calculatedFrom(
+    ""`tick`"") ,@lengthOf( asx ) match crc as trueish {
+[ """" ,""// no comment""
+    ,
+42 ,
+    // @lengthOf(
+    ""packet""
+    ]	: chars , 0 :
+// packet A { u8 x, }
+//
+x
+""packet"" : crc ,
+} ,@calculatedFrom( ""{,}"" // a // b
+)repeatCount ,
+@tag( 7 ) BodyLength @calculatedFrom(
+""a	b""
+) ,	repeat u32 i64_ , }
+packet
+f32a
+{@tag(
+    //x
+    42
+    ) @tag( 10 ) string MetaDataX @calculatedFrom(""" ++ [28040; 24687]%N ++ runes_of_ascii """ // " ++ [27880; 37322]%N ++ runes_of_ascii "
 )
-@tag(3 ) int @lengthOf( int ) , char[] asx @calculatedFrom( ""a\""b"" ) `a\` , int16	charz,
+    ,
     //	t
-    string x_y_z@lengthOf( int	) `a\`
-    , i64 o
-,} root
-    packet zchar { }
+    crc {
+a1 // a // b
+@calculatedFrom( ""a\\"" ) `crlf
+line`
+,
+    repeat zchar[10] A  , } , // " ++ [27880; 37322]%N ++ runes_of_ascii "
+match Packet	as Pad // a // b
+{ ""CRC32""
+: msg_type
+, } ,
+repeat string A `doc` ,}
 ")).
+Eval vm_compute in ("<<<M3520>>>" ++ check (runes_of_ascii "options{StringPrefixLenType =u8	;	ArrayPrefixLenType
+
+=u8;
+    FixedStringPadFromLeft =
+true; FixedStringPadChar
+    =  ' '
+
+    ;
+    }  packet Logout  {	repeat string Px , repeat  string seqNo ,InMsgkind64{ uint16 OrderId  , 
+char[]count
+    , repeat i32
+venue,	}
+
+    ,	}packet
+    Heartbeat{
+	float32 tag7,
+
+    repeat InPrice50
+    { repeat char[
+	5 
+] lastPx,
+
+    InRef42
+{
+u8
+
+pad0 , } , uint32
+    Acct,	repeat
+	Logout	, 
+repeat char[
+
+    5	]
+Qty, } 
+,repeat
+	InSeqno30
+{
+    repeat
+	Logout
+
+    ,
+}
+    , @leftPad	('0'
+
+) char[
+
+    12	]Acct	,
+
+    char[]
+
+    Side2 ,
+repeat string
+msgKind,
+
+} 
+packet Ack  {
+
+    Heartbeat,
+char[	8 ]
+seqNo
+,
+	float64	clOrdID
+
+,  } 
+packet
+Trade{	char[]	OrderId
+
+,
+
+f64
+Side2
+,
+	zchar[8 ] f1 , string	Qty , float64
+seqNo
+,repeat Logout
+
+, }packet
+    Order 
+{
+f32
+	OrderId,	repeat	u8  x
+
+    ,
+    Ack
+
+,  zchar[7]
+    Note
+	,
+} 
+root  packet 
+Logon
+
+    {  @rightPad
+(  '\x00'
+	)
+char[ 9  ]f1
+	,
+}
+")).
+Eval vm_compute in ("<<<M832>>>" ++ check (runes_of_ascii "MetaData  rootA
+    //	t
+    {
+} // " ++ [27880; 37322]%N ++ runes_of_ascii "
+packet	tag {repeat
+    lengthOf i8i8
+    `a\` // @lengthOf(
+,	@leftPad ('0') @rightPad
+    ( '\x00' )  match
+    chars as trueish
+    { ""it's""
+    : As
+, ""x y"": u //	t
+,
+//x
+/// triple
+42
+    // trailing space 
+    :chars
+,7: float ,
+255 : Foo ,
+    } , @calculatedFrom(""packet""
+/// triple
+// @lengthOf(
+) match u128 as tag {	00 :  packetx
+    ,255 : uint8x , [ ""{,}"" , """ ++ [128512]%N ++ runes_of_ascii """ ,// @lengthOf(
+65535
+, 10, // " ++ [27880; 37322]%N ++ runes_of_ascii "
+7,
+""packet"", // c
+255 ,
+    ""a\""b"" ] : o ,  0 : //
+x_y_z
+,
+    } // `tick` ""quote"" 'q'
+,
+@tag( // " ++ [128512]%N ++ runes_of_ascii " emoji
+0123456789 ) u { match pack as _x{
+[  007 ,0123456789
+] : charz , } ,
+    char[
+    42 ] u
+    // " ++ [128512]%N ++ runes_of_ascii " emoji
+    , } ,
+    int8 trueish ,@lengthOf( a1) x // trailing space 
+@calculatedFrom( ""\" ++ [233]%N ++ runes_of_ascii """ ) , @rightPad ( '0' )
+    Packet Z9_,  @leftPad ('\x00' ) falsey
+    { char[] msg_type	,
+} ,}
+root packet len {  options1 {
+    uint16 As @lengthOf( //x
+zchar ) `it's`
+    , },
+    }")).
+Eval vm_compute in ("<<<M4401>>>" ++ check (runes_of_ascii "packet
+
+    u
+    {uint64
+
+    u8x
+
+    ,
+
+@leftPad
+
+('0' ) u16
+    uint8x
+	@lengthOf(
+T )
+
+    , @lengthOf(  
+      // `tick` ""quote"" 'q'
+	// `tick` ""quote"" 'q'
+  lengthOf
+
+    )@lengthOf(	msg_type  )
+    u16
+    tag	@calculatedFrom(  ""a\""b""
+
+) 
+	// a // b
+	`crlf
+line` 
+,
+
+}packet
+As
+	{
+@calculatedFrom(
+    ""a\\""
+) u128{	int16 
+string_  
+  // c
+      @lengthOf( Header  )
+	, repeat
+	i64_	`{ , }`
+
+    , } ,	/// triple
+  } 
+root
+packet
+roots
+
+{ 
+@calculatedFrom(	//	t
+	""`tick`""
+    )i32
+
+    Header 
+`" ++ [233]%N ++ runes_of_ascii "`
+,
+
+    int8
+
+T
+, @rightPad(
+
+' '	)
+
+u32 charz`doc`, 
+char[ 65535 ]  f32a  ,
+metadata
+
+    , }
+    MetaData	T
+{ u8x
+roots
+
+`it's`
+    , options1  MetaDataX
+
+    ,  int32  f32a, }
+options
+	{	// trailing space 
+
+	f32a= '0'  Pad 
+= 
+    //x
+	// trailing space 
+0123456789;	repeatCount 
+    // a // b
+
+  =
+
+char[]x_y_z
+	    //x
+// " ++ [27880; 37322]%N ++ runes_of_ascii "
+= '\x00'
+    }
+")).
+Eval vm_compute in ("<<<M882>>>" ++ check (runes_of_ascii "packet chars
+{
+    @leftPad	( '0'
+    ) char[]
+MetaDataX
+@lengthOf(
+Foo
+) , @lengthOf(
+    chars
+)repeat
+    BodyLength
+    // `tick` ""quote"" 'q'
+    ,	@lengthOf(MetaDataX  ) @lengthOf( A ) uint8x// trailing space 
+{ u16 Pad @lengthOf(
+// a // b
+/// triple
+charz ) `line1
+line2`, i64_
+{ match
+    i8i8/// triple
+as i8i8  {	7 :calculatedFrom 255 :
+x_y_z
+,
+    0123456789
+    : rootA""packet"" : string_ , 0123456789:  chars
+,	}
+//x
+// " ++ [27880; 37322]%N ++ runes_of_ascii "
+, } , } ,	zchar[3] Header	`two words` , i32 o , @tag(
+4294967296)	pack
+    ``
+    ,
+    repeatCount {
+i8 // " ++ [128512]%N ++ runes_of_ascii " emoji
+i64_ `
+`	, asx
+i64_ , crc { repeat zchar[
+    255 ] repeatCount // c
+,repeat uint8 Packet,
+char
+leftPad
+// packet A { u8 x, }
+// `tick` ""quote"" 'q'
+, uint32 lengthOf	@lengthOf( charz ) , } /// triple
+,
+},
+leftPad `` , repeat int16
+Pad
+    //x
+    ,
+repeat u matchKey, }
+")).
+Eval vm_compute in ("<<<M3525>>>" ++ check (runes_of_ascii "options {
+    LittleEndian = true;
+    StringPrefixLenType = u64;
+    ArrayPrefixLenType = u8;
+    FixedStringPadChar = '0';
+}
+packet Reject {
+    i32 Ref,
+    repeat f64 OrderId,
+    repeat InNote12 {
+        u8 pad0,
+    },
+    @leftPad(' ') char[6] count,
+}
+packet Logout {
+    zchar[6] Tail,
+    repeat string venue,
+}
+packet Cancel {
+    u64 count,
+    repeat char[5] lastPx,
+    i64 Tail,
+    repeat InF140 {
+        repeat Logout,
+        repeat Reject,
+    },
+}
+root packet Trade {
+    repeat InMsgkind39 {
+        repeat Reject,
+        char[4] Px,
+    },
+    string Acct,
+    uint16 price,
+    f32 OrderId,
+    u16 x,
+    u16 clOrdID @lengthOf(Body),
+    match x as Body {
+        178 : Logout,
+        13 : Cancel,
+        174 : Reject,
+    },
+    u16 Flags @calculatedFrom(""CRC32""),
+}
+")).
+Eval vm_compute in ("<<<M3668>>>" ++ check (runes_of_ascii "
+
+  packet As	{
+
+    @lengthOf(
+	chars
+    )
+
+@leftPad
+
+    ( 
+' ' )
+string
+	leftPad
+
+@lengthOf( _x) ,
+
+    @tag( 	 // " ++ [128512]%N ++ runes_of_ascii " emoji
+00 
+
+    /// triple
+) match // " ++ [128512]%N ++ runes_of_ascii " emoji
+A
+as falsey
+	{  // `tick` ""quote"" 'q'
+0
+
+    : i64_ ,
+
+[""x y"" 
+,
+    ""a\""b""
+, ""it's"" , 
+""x y"" 
+,
+
+    007
+
+,
+
+    ""a	b""
+
+    ] // `tick` ""quote"" 'q'
+
+  :
+roots 
+65535
+://x
+  stringy	, },
+    zchar[4294967296 
+] 
+string_ `it's`,int16
+Logon `it's`	, 
+@calculatedFrom(
+
+    """ ++ [233]%N ++ runes_of_ascii "t" ++ [233]%N ++ runes_of_ascii """
+
+)  repeat char[]// " ++ [27880; 37322]%N ++ runes_of_ascii "
+  stringy `a\`  ,	repeat char[3  ]crc , @lengthOf(
+msg_type)x{
+u8x
+    int	`two words`  , i8i8
+_x  // packet A { u8 x, }
+
+  `
+`  ,
+	int8  Logon 
+@lengthOf(  Pad  ),
+
+}	, 
+@tag( 1 )
+
+i64
+	string_
+    @calculatedFrom(""\" ++ [233]%N ++ runes_of_ascii """ )
+    , 	 // packet A { u8 x, }
+	char[]
+Foo, 
+}
+
+")).
+Eval vm_compute in ("<<<M4317>>>" ++ check (runes_of_ascii "packet Header {
+    @lengthOf(BodyLength)
+    string body @lengthOf(zchar) `two words`,
+    @lengthOf(rootA)
+    i32 metadata `it's`,
+    @tag(00)
+    // trailing space 
+    msg_type @lengthOf(As),
+    int {
+        repeat string u128 `" ++ [233]%N ++ runes_of_ascii "`,
+        match MetaDataX as packetx {
+            [1, 0] : MetaDataX,
+            ""{,}"" : calculatedFrom,
+        },
+        // trailing space 
+        match asx as Logon {
+            7 : uint8x,
+            00 : x_y_z,
+            ""\" ++ [233]%N ++ runes_of_ascii """ : o,
+            """ ++ [233]%N ++ runes_of_ascii "t" ++ [233]%N ++ runes_of_ascii """ : chars,
+        },
+        body i64_ `crlf
+        line`,
+    },
+    a1 `line1
+    line2`,
+    // `tick` ""quote"" 'q'
+    // a // b
+    chars `// not a comment`,
+    @tag(7)
+    leftPad charz,
+    int64 a1 @calculatedFrom(""\n""),
+}")).
+Eval vm_compute in ("<<<M3827>>>" ++ check (runes_of_ascii "packet BodyLength {
+    zchar[10] x @calculatedFrom(""""),
+    @lengthOf(string_)
+    metadata,
+    @lengthOf(trueish)
+    repeat chars {
+        zchar[00] T @calculatedFrom(""a	b"") `crlf
+                line`,
+        char[0] chars,
+    },
+    uint8 rootA @lengthOf(int),
+    @lengthOf(packetx)
+    char[007] uint8x @calculatedFrom(""\" ++ [233]%N ++ runes_of_ascii """),
+    u {
+        char[] Pad @calculatedFrom(""\n""),
+    },
+    char[10] pack @lengthOf(_x) `two words`,
+    char[] Logon @lengthOf(body),
+    @lengthOf(matchKey)
+    chars {
+        uint16 pack,
+        char[4294967296] options1 @calculatedFrom(""CRC32""),
+        u32 i64_ `say ""hi""`,
+        lengthOf `// not a comment`,
+    },
+    options1 @lengthOf(x),
+}")).
 Eval vm_compute in ("<<<M983>>>" ++ check (runes_of_ascii "packet
     // c
     i64_{ @calculatedFrom( ""it's""
@@ -1324,877 +1163,484 @@ x {
     //x
     ,	}
 ")).
-Eval vm_compute in ("<<<M654>>>" ++ check (runes_of_ascii "options
-    //	t
-    { lengthOf
-= ""a\""b""
-    A =
-    // packet A { u8 x, }
-    false ; repeatCount=
-7 ;body =// a // b
-true ; } packet roots { string f32a ,} root packet crc{@rightPad
-    ( '0' ) zchar[
-42 ] zchar	@calculatedFrom(""abc"" )
-    `// not a comment`,f32 x_y_z
-,
-repeat  packetx
-    `u8 x,` //x
-, @lengthOf(
-tag
-    ) f64	u8x `` , char[] options1//	t
-, @lengthOf( matchKey	)
-Logon @calculatedFrom(""{,}"" )
-    `" ++ [28040; 24687; 31867; 22411]%N ++ runes_of_ascii "` , }
-root packet
-falsey { match // @lengthOf(
-matchKey as asx{ ""\" ++ [233]%N ++ runes_of_ascii """:
-i64_ [ 4294967296 , ""a\\"" ] : falsey [
-3
-    , 7,
-    ""// no comment"" ,7 , ""CRC32"" , 0 ,
-""// no comment""
-    ,0 ] :
-zchar
-, },
-}")).
-Eval vm_compute in ("<<<M1135>>>" ++ check (runes_of_ascii "packet falsey { @leftPad
-()
-zchar[ 1 ]f32a,	_x // a // b
-{ int32 u128 , rootA
-, } , @rightPad
-    ( '\x00' )
-    // " ++ [27880; 37322]%N ++ runes_of_ascii "
-    char matchKey	, @lengthOf( As )
-match pack as
-BodyLength
-    {
-    ""1""
-:tag,[ 65535 ]
-    :
-msg_type
-,
-    [ ""`tick`"" ]: falsey ,
-""// no comment"" : u128 ,} , // " ++ [128512]%N ++ runes_of_ascii " emoji
-match len  as Z9_ {[
-    ""a	b""
-    , 10  ]:
-    Foo, 255: int , 0123456789 : tag
-,
-1
-    /// triple
-    : metadata ,[
-00 ,
-4294967296 ,
-    """ ++ [28040; 24687]%N ++ runes_of_ascii """ ] : //	t
-roots ,
-    [ 42	,4294967296 ,
-10
-    , 00 , 4294967296	]
-: int  , } , @calculatedFrom( ""{,}""	)repeat _x // c
-{tag // a // b
-`doc` , }
-    ,
-    }
-")).
-Eval vm_compute in ("<<<M910>>>" ++ check (runes_of_ascii "packet repeatCount
-    { match BodyLength as body{ 255: As ,	}	,_x @calculatedFrom(  ""x y"" ) `" ++ [233]%N ++ runes_of_ascii "` ,@calculatedFrom( ""1"" ) // @lengthOf(
-repeat uint32 A , zchar[ 00 ] x_y_z
-,  @rightPad (
-'0' )@leftPad
-( ' ' //x
-) i32 lengthOf , repeat
-// packet A { u8 x, }
-//	t
-i64 len `" ++ [28040; 24687; 31867; 22411]%N ++ runes_of_ascii "` ,
-@calculatedFrom(""packet"" ) stringy
-float , @calculatedFrom( ""{,}"" )
-    repeat
-    char[ 7
-    ]u8x `two words`
-,
-    } options
-    { int	=""a\""b"" ;
-Header	=
-    true; trueish = zchar[
-00// packet A { u8 x, }
-]; falsey = false ; Pad =
-//	t
-// `tick` ""quote"" 'q'
-zchar[
-1 ] }//
-packet T{ }
-")).
-Eval vm_compute in ("<<<M4447>>>" ++ check (runes_of_ascii "options {
-    T = ""x y"";
-}
-
-packet Z9_ {
-    @leftPad('0')
-    int16 Header @calculatedFrom(""1""),
-    options1 @lengthOf(u8x) `// not a comment`,
-    @calculatedFrom(""// no comment"")
-    @lengthOf(pack)
-    Header {
-        i32 u `{ , }`,
-        _x,
-        char[7] crc @lengthOf(i64_),
-    },// `tick` ""quote"" 'q'
-    float @lengthOf(roots) `it's`,
-}
-
-packet stringy {
-    @rightPad('\x00')
-    @rightPad('0')
-    @calculatedFrom(""" ++ [28040; 24687]%N ++ runes_of_ascii """)
-    string a1,
-    f32 uint8x @lengthOf(charz) `two words`,
-    int32 x_y_z @lengthOf(string_),
-}")).
-Eval vm_compute in ("<<<M976>>>" ++ check (runes_of_ascii "root packet uint8x{ @tag( 7 ) @leftPad ( ) // a // b
-repeat Logon {  chars @calculatedFrom( /// triple
-""x y""  )	`tab	here`
-    //x
-    ,
-match falsey
-// `tick` ""quote"" 'q'
-// c
-as uint8x { 7
-    :
-Logon,[ ""\n""
-,42
-    // trailing space 
-    ]
-:repeatCount ,
-10 : x , """ ++ [28040; 24687]%N ++ runes_of_ascii """
-    :i64_ , // c
-}
-    ,u128
-    @calculatedFrom( ""a	b"") `crlf
-line`  ,  }
-// " ++ [27880; 37322]%N ++ runes_of_ascii "
-// `tick` ""quote"" 'q'
-,
-    } packet charz
-    //x
-    { @lengthOf( Packet)
-    // " ++ [27880; 37322]%N ++ runes_of_ascii "
-    i64 // trailing space 
-lengthOf
-`tab	here` ,/// triple
-}")).
-Eval vm_compute in ("<<<M3595>>>" ++ check (runes_of_ascii "
-
-  root packet
-	o{ } packet	T {zchar[
-	4294967296]asx
-`say ""hi""`,  } MetaData
-f32a
-{
-f64
-    MetaDataX`say ""hi""` 
-      // packet A { u8 x, }
-
-,
-
-    x_y_z rootA
-	`doc` , //	t
-      u32  repeatCount 
-/// triple
-		,
-
-string
-T
-,u8x
-    u 
-`doc` 
-, }options
-
-{
-x_y_z=
-    0 }// packet A { u8 x, }
-      root packet  // c
-	MetaDataX
-{@calculatedFrom(
-""abc""
-	)
-	@calculatedFrom(""" ++ [128512]%N ++ runes_of_ascii """
-)
-    @tag(
-	3
-
-    ) 
-charz
-@lengthOf(
-
-    Packet)	`line1
-line2`
-    , }/// triple
-")).
-Eval vm_compute in ("<<<M384>>>" ++ check (runes_of_ascii "packet f32a { } packet trueish
-{ @rightPad
-// " ++ [27880; 37322]%N ++ runes_of_ascii "
-// c
-( ) rootA
-@lengthOf(	Pad
+Eval vm_compute in ("<<<M1019>>>" ++ check (runes_of_ascii "packet
+Foo { @calculatedFrom( ""it's"")/// triple
+@calculatedFrom( ""// no comment"" )	pack @calculatedFrom(
+    ""// no comment"" ) `tab	here`
+, }
+root packet options1 { @tag( 42 ) // a // b
+repeat char[ 42 // a // b
+]
+Packet `// not a comment`,	Logon { len ,  crc { zchar[ 65535
+    ] msg_type
+    @calculatedFrom( ""`tick`""
+) ,}
+    ,}, } packet matchKey
+{ @lengthOf(int
     )
-,@tag(
-0 ) Logon @lengthOf(	trueish	) , As
-    `
-`,
-repeat int8
-    // " ++ [128512]%N ++ runes_of_ascii " emoji
-    Logon,
-@tag( 255
-) // `tick` ""quote"" 'q'
-char
-    A ,i64
-Header , match  Z9_
-as falsey {
-65535: x_y_z""CRC32"": // c
-float	,}  , i8 len , @tag(  7 ) // `tick` ""quote"" 'q'
-repeat rootA x_y_z
-,
-@tag(
-    00) zchar[ 007 // " ++ [128512]%N ++ runes_of_ascii " emoji
-] x_y_z`a\`  , } MetaData roots  { } // `tick` ""quote"" 'q'")).
-Eval vm_compute in ("<<<M844>>>" ++ check (runes_of_ascii "packet
-u128	{ string MetaDataX
-@lengthOf(
-matchKey ) , @lengthOf( calculatedFrom )
-// " ++ [128512]%N ++ runes_of_ascii " emoji
-// " ++ [128512]%N ++ runes_of_ascii " emoji
-string // packet A { u8 x, }
-uint8x `it's` , As @calculatedFrom(	""" ++ [233]%N ++ runes_of_ascii "t" ++ [233]%N ++ runes_of_ascii """)
-    ,
-} MetaData repeatCount{
-    // c
-    zchar[
-    7 ]	msg_type // " ++ [128512]%N ++ runes_of_ascii " emoji
-,// @lengthOf(
-string trueish,u
-As`doc`  ,
-zchar
-T	, string roots// c
-`doc`,
-} root packet o //
-{repeat zchar[ 007
+@calculatedFrom(
+    ""// no comment""
+)  @tag(7
+// `tick` ""quote"" 'q'
+// @lengthOf(
+) x_y_z ,
+    i16 x_y_z `say ""hi""`
+    , @calculatedFrom(	""" ++ [233]%N ++ runes_of_ascii "t" ++ [233]%N ++ runes_of_ascii """
+    )
+    @calculatedFrom( //x
+"""")
 // a // b
 //x
-] u8x , repeat	char[4294967296 ]
-    x ,u8x
-    `{ , }` , }")).
-Eval vm_compute in ("<<<M455>>>" ++ check (runes_of_ascii "root packet
-// " ++ [27880; 37322]%N ++ runes_of_ascii "
-// c
-Pad { @leftPad ( '\x00') @leftPad ( ' ' )
-    calculatedFrom
-    // packet A { u8 x, }
-    rootA `it's` , T`line1
-line2` ,
-    match pack as  int{
-    //
-    0: x_y_z [""1"", 0 ,10
-// c
-//
+@tag(
+4294967296 )
+    // @lengthOf(
+    BodyLength string_,	}")).
+Eval vm_compute in ("<<<M1127>>>" ++ check (runes_of_ascii "packet calculatedFrom {// trailing space 
+@lengthOf( // `tick` ""quote"" 'q'
+crc
+) string a1
+`say ""hi""` // trailing space 
+, repeat int64
+    float `" ++ [28040; 24687; 31867; 22411]%N ++ runes_of_ascii "`
 ,
-""" ++ [128512]%N ++ runes_of_ascii """
-,
-    65535 ,""CRC32"" ,
-7] : string_ , [ 255  , ""abc""	, ""CRC32"", ""abc""
-    ]: i8i8 10 :
-Z9_
-    , // " ++ [128512]%N ++ runes_of_ascii " emoji
-}
-    ,
-    } options { }	MetaData T { //x
-u uint8x,string_ _x , uint16 body`doc`
-, uint32 tag `a\` , }")).
-Eval vm_compute in ("<<<M3987>>>" ++ check (runes_of_ascii "packet roots {
-}
-
-packet metadata {
-    @lengthOf(u)
-    @tag(00)
-    @lengthOf(Pad)
-    T @lengthOf(pack),
-    @rightPad('0')
-    lengthOf,
-    @lengthOf(u)
-    char[] A,
-    match Packet as a1 {
-        007 : leftPad,
-        65535 : msg_type,
-        ""a\\"" : Z9_,
-        """ ++ [233]%N ++ runes_of_ascii "t" ++ [233]%N ++ runes_of_ascii """ : A,
-        ""// no comment"" : x_y_z,
-        4294967296 : a1,
-        /// triple
-    },
-    f32 T,
-    f64 roots @lengthOf(int),
-}")).
-Eval vm_compute in ("<<<M818>>>" ++ check (runes_of_ascii "packet	lengthOf
-{@calculatedFrom( ""a	b"" )
-    char[]charz @calculatedFrom(	""`tick`"")
-    `{ , }`
-, } MetaData lengthOf {}  options
-    { o =
-    char[];
-// `tick` ""quote"" 'q'
 // trailing space 
-}	packet o
-{repeat repeatCount {repeat
-    i8 Header `tab	here`
-    ,
-//
-// packet A { u8 x, }
-x_y_z rootA
-`doc` , }, zchar[  65535
-] _x `
-` , @leftPad (
-    '\x00'
-) i32  options1 `crlf
-line`
-, }")).
-Eval vm_compute in ("<<<M3498>>>" ++ check (runes_of_ascii "options {
-    LittleEndian = false;
-    StringPrefixLenType = u32;
-    ArrayPrefixLenType = u16;
-}
-packet Party {
-    @leftPad('0') char[12] Ref,
-    repeat char[6] x,
-}
-packet Logon {
-    uint32 clOrdID,
-    Party,
-}
-root packet Ack {
-    zchar[2] f1,
-    u32 seqNo,
-    u32 Side2 @lengthOf(Body),
-    match seqNo as Body {
-        43 : Logon,
-        93 : Party,
-    },
-}
-")).
-Eval vm_compute in ("<<<M116>>>" ++ check (runes_of_ascii "options//	t
+// " ++ [128512]%N ++ runes_of_ascii " emoji
+@calculatedFrom( ""`tick`""
+    ) BodyLength
+    @calculatedFrom(
+    ""packet"" )
+, char[ 65535
+    ] pack
+    // packet A { u8 x, }
+    ,	}
+packet
+    //x
+    Logon// a // b
+{u falsey , repeat i8i8  , calculatedFrom @calculatedFrom(
+    """ ++ [28040; 24687]%N ++ runes_of_ascii """
+) ,
+    // c
+    repeat
+    // " ++ [27880; 37322]%N ++ runes_of_ascii "
+    A As ,  } MetaData uint8x {
+matchKey
+T
+`" ++ [233]%N ++ runes_of_ascii "` ,o T // " ++ [128512]%N ++ runes_of_ascii " emoji
+, char[
+00] int
+`crlf
+line` , char[3
+] pack // " ++ [128512]%N ++ runes_of_ascii " emoji
+,
+len a1 `say ""hi""`// c
+,}")).
+Eval vm_compute in ("<<<M124>>>" ++ check (runes_of_ascii "packet
+crc// @lengthOf(
+{ @rightPad ( '0' ) char[7
+    // c
+    ]
+matchKey  @calculatedFrom( ""{,}"") , } packet x_y_z  {  @calculatedFrom( ""a\""b"" )
+T
+{ Header
 {
-BodyLength
-    = ""{,}"" tag	=
-    ""// no comment"" ; } options {
-    charz
-= '\x00' ; // a // b
-repeatCount
-= 255// c
-; _x
-=
-    """ ++ [128512]%N ++ runes_of_ascii """
-    ; Foo= '0'	a1 ='0'
-//x
-//
-}root packet falsey { i64 packetx@lengthOf( Header//	t
-)`" ++ [28040; 24687; 31867; 22411]%N ++ runes_of_ascii "` ,
-len @lengthOf( roots )
-`a\` , zchar	@lengthOf( MetaDataX
-    //x
-    )
-    `line1
-line2`
-    , } // packet A { u8 x, }")).
-Eval vm_compute in ("<<<M4405>>>" ++ check (runes_of_ascii "MetaData zchar {
-    packetx calculatedFrom `doc`,
-    zchar[3] Z9_,
-    char[65535] i64_,
-    u64 lengthOf `
-        `,
-    zchar[00] Pad `{ , }`,
-    A lengthOf `two words`,
-}
-
-MetaData BodyLength {
-    char[3] u128,
-    string MetaDataX,
-    u8x i64_ `u8 x,`,
-}
-
-MetaData chars {
-    string Logon `{ , }`,
-    char[10] u,
-    len repeatCount,
-}")).
-Eval vm_compute in ("<<<M45>>>" ++ check (runes_of_ascii "
-packet stringy
-{	falsey @lengthOf( MetaDataX )`crlf
-line`
-,match tag as uint8x{
-""a\""b"" : charz
-    , 00 :
-    repeatCount , 10
-: Header
-    ""a	b""
-    /// triple
-    : Pad
-,65535
-    :
-metadata
-    ,
-},
-    @calculatedFrom( ""a\""b""
-    )
-    //x
-    char[
-    255 ]falsey , x_y_z
-@calculatedFrom(  ""packet"")
-    `tab	here` , }
-")).
-Eval vm_compute in ("<<<M4207>>>" ++ check (runes_of_ascii "packet trueish {
-    pack @lengthOf(uint8x),
-    A @calculatedFrom(""CRC32"") `say ""hi""`,
-    repeat A {
-        /// triple
-        body `" ++ [28040; 24687; 31867; 22411]%N ++ runes_of_ascii "`,
-        a1 body,
-        o @calculatedFrom(""a	b""),
-        repeat MetaDataX,
-    },
-    @rightPad()
-    match o as metadata {
-        65535 : _x,
-        ""\" ++ [233]%N ++ runes_of_ascii """ : pack,
-    },
-}")).
-Eval vm_compute in ("<<<M1467>>>" ++ check (runes_of_ascii "root packet Foo // " ++ [128512]%N ++ runes_of_ascii " emoji
-{ } options {
-    // a // b
-    tag // `tick` ""quote"" 'q'
-= //	t
-""""
-    ; @calculatedFrom( = zchar[0  ] }
-MetaData
-    int {zchar[ 10]
-lengthOf	`` , i64 u8x`// not a comment` ,MetaDataX pack// `tick` ""quote"" 'q'
-`crlf
-line`
-, Logon charz `crlf
-line`
-    ,
-    // a // b
-    }
-")).
-Eval vm_compute in ("<<<M4261>>>" ++ check (runes_of_ascii "packet repeatCount {
-    @tag(7)
-    int16 crc,
-    zchar[007] a1 @lengthOf(falsey),
-    repeat char[] Packet,
-    o,
-}
-
-packet crc {
-    @rightPad('\x00')
-    @rightPad('0')
-    i64 A,
-    match stringy as o {
-        4294967296 : chars,
-    },
-    body int,
-    @calculatedFrom(""\n"")
-    Packet,
-}")).
-Eval vm_compute in ("<<<M1522>>>" ++ check (runes_of_ascii "root packet Foo // " ++ [128512]%N ++ runes_of_ascii " emoji
-{ } options {
-    // a // b
-    tag // `tick` ""quote"" 'q'
-= //	t
-""""
-    ; u8x = zchar[0  ] }
-MetaData
-    int {zchar[ 10 i16
-lengthOf	`` , i64 u8x`// not a comment` ,MetaDataX pack// `tick` ""quote"" 'q'
-`crlf
-line`
-, Logon charz `crlf
-line`
-    ,
-    // a // b
-    }
-")).
-Eval vm_compute in ("<<<M1447>>>" ++ check (runes_of_ascii "root packet Foo // " ++ [128512]%N ++ runes_of_ascii " emoji
-{ } options {
-    // a // b
-    true // `tick` ""quote"" 'q'
-= //	t
-""""
-    ; u8x = zchar[0  ] }
-MetaData
-    int {zchar[ 10]
-lengthOf	`` , i64 u8x`// not a comment` ,MetaDataX pack// `tick` ""quote"" 'q'
-`crlf
-line`
-, Logon charz `crlf
-line`
-    ,
-    // a // b
-    }
-")).
-Eval vm_compute in ("<<<M1492>>>" ++ check (runes_of_ascii "root packet Foo // " ++ [128512]%N ++ runes_of_ascii " emoji
-{ } options {
-    // a // b
-    tag // `tick` ""quote"" 'q'
-= //	t
-""""
-    ; u8x = zchar[0  ] ,
-MetaData
-    int {zchar[ 10]
-lengthOf	`` , i64 u8x`// not a comment` ,MetaDataX pack// `tick` ""quote"" 'q'
-`crlf
-line`
-, Logon charz `crlf
-line`
-    ,
-    // a // b
-    }
-")).
-Eval vm_compute in ("<<<M1479>>>" ++ check (runes_of_ascii "root packet Foo // " ++ [128512]%N ++ runes_of_ascii " emoji
-{ } options {
-    // a // b
-    tag // `tick` ""quote"" 'q'
-= //	t
-""""
-    ; u8x = zchar[  ] }
-MetaData
-    int {zchar[ 10]
-lengthOf	`` , i64 u8x`// not a comment` ,MetaDataX pack// `tick` ""quote"" 'q'
-`crlf
-line`
-, Logon charz `crlf
-line`
-    ,
-    // a // b
-    }
-")).
-Eval vm_compute in ("<<<M192>>>" ++ check (runes_of_ascii "root
-packet	i64_
-    {
-    }options{ chars
-= char[
-65535 ] body = ""abc""; u= ""`tick`"" trueish
-='0' }options
-{repeatCount= '\x00'
+    // packet A { u8 x, }
+    lengthOf
+packetx
+`// not a comment` ,A
+    i8i8 `crlf
+line` , string o `line1
+line2` ,
+string_ @lengthOf( tag ) `line1
+line2` , },
+    } ,
+match
+lengthOf as	Z9_ {
+""\" ++ [233]%N ++ runes_of_ascii """
+: A , }
+, match rootA as
+matchKey// `tick` ""quote"" 'q'
+{	[""`tick`""// @lengthOf(
+,""x y""
+] :  Packet, }
+, //x
+repeat zchar[
+    1 ]// a // b
+_x
 // " ++ [128512]%N ++ runes_of_ascii " emoji
 /// triple
-;
-    f32a =""\n"" int
-    /// triple
-    = false Pad
-= ""1""repeatCount =""// no comment""; }root packet string_
-{i32 As `tab	here` , } // c")).
-Eval vm_compute in ("<<<M1559>>>" ++ check (runes_of_ascii "root packet Foo // " ++ [128512]%N ++ runes_of_ascii " emoji
-{ } options {
-    // a // b
-    tag // `tick` ""quote"" 'q'
-= //	t
-""""
-    ; u8x = zchar[0  ] }
-MetaData
-    int {zchar[ 10]
-lengthOf	`` , i64 u8x`// not a comment` , pack// `tick` ""quote"" 'q'
-`crlf
-line`
-, Logon charz `crlf
-line`
-    ,
-    // a // b
-    }
-")).
-Eval vm_compute in ("<<<M522>>>" ++ check (runes_of_ascii "packet As{ // packet A { u8 x, }
-repeatCount @lengthOf( Pad )`" ++ [28040; 24687; 31867; 22411]%N ++ runes_of_ascii "`, // c
-}MetaData uint8x { char[
-    3 ] o`say ""hi""`, uint16 A, leftPad
-    matchKey ,char[] As `line1
-line2`	, u32 string_ ,/// triple
-metadata len , } packet
-    options1 {metadata	options1// " ++ [27880; 37322]%N ++ runes_of_ascii "
-,
-}
-")).
-Eval vm_compute in ("<<<M3787>>>" ++ check (runes_of_ascii "
-
-  root 
-
-    //	t
-    	packet
-    Logon//
+, char[]
+    msg_type , A rootA , } //")).
+Eval vm_compute in ("<<<M1146>>>" ++ check (runes_of_ascii "options
+    {
+    // " ++ [27880; 37322]%N ++ runes_of_ascii "
+    tag = ' '
+leftPad // c
+=  255 x_y_z=
+uint32; // a // b
+falsey= """ ++ [28040; 24687]%N ++ runes_of_ascii """ As  =""packet"" ; }packet As
 {
-    @tag(  0123456789  )	@leftPad( ' ')
-Packet	{	o  @calculatedFrom(""a	b"" ) `tab	here`
-, }
-
-,
-repeat
-leftPad
-
-i8i8 `line1
-line2`
-,
-i64
-calculatedFrom , float32  stringy @calculatedFrom(""`tick`"" )
-
-    , 
-}
-
-")).
-Eval vm_compute in ("<<<M3631>>>" ++ check (runes_of_ascii "
-
-  packet  MetaDataX
-
-{
-match
-Header	as 	 // a // b
-	  zchar {0
-	:
-	pack
-    [	42
-        // packet A { u8 x, }
-	  // c
-    	, 65535 ] :
-
-crc
-},  // @lengthOf(
-@tag( 
-1 
+@lengthOf( u ) repeat
+u8 i8i8 `two words`,
+@tag( 00 // " ++ [27880; 37322]%N ++ runes_of_ascii "
+)@tag(	1 //x
 )
-    @rightPad(	' ' 	 // " ++ [27880; 37322]%N ++ runes_of_ascii "
-	)
-    int64
-	Foo
-,}  // packet A { u8 x, }
-")).
-Eval vm_compute in ("<<<M82>>>" ++ check (runes_of_ascii "packet
-x { char matchKey
-    @lengthOf( x_y_z ) //
-, }packet	trueish  {
-    @tag( 255
-    )
-char calculatedFrom @lengthOf( Header ) , }
-    MetaData options1
-    // trailing space 
-    { }
-packet MetaDataX {
-    }
-    packet trueish{	}")).
-Eval vm_compute in ("<<<M181>>>" ++ check (runes_of_ascii "root
-packet BodyLength {
+    char[ 255 ] a1	@lengthOf( zchar )  , i32
+    //
+    u, repeat	float32 tag ,
+    //
+    A	,repeat uint8
 //x
-//	t
-@rightPad( ' ') f32
-_x @lengthOf( Header )
-`" ++ [28040; 24687; 31867; 22411]%N ++ runes_of_ascii "`
-, @lengthOf( crc )
-    // a // b
-    @tag(
-    007
-) char[]// c
-a1
-    ,  } packet metadata { Foo@calculatedFrom( ""\n""), char _x
-// " ++ [27880; 37322]%N ++ runes_of_ascii "
-//	t
-, }
+// `tick` ""quote"" 'q'
+string_, @calculatedFrom(
+""a\""b""	) @lengthOf(
+Header )u{int8	asx ``, i32 Foo
+@lengthOf( // " ++ [27880; 37322]%N ++ runes_of_ascii "
+tag )`
+` , }
+    , float64 pack
+    , @tag(10) Foo //	t
+, match repeatCount as u8x { 42: o, } , }
+
 ")).
-Eval vm_compute in ("<<<M4025>>>" ++ check (runes_of_ascii "packet Foo {
+Eval vm_compute in ("<<<M795>>>" ++ check (runes_of_ascii "
+packet rootA { string calculatedFrom@lengthOf(
+matchKey )
+, }packet rootA
+    {
+// " ++ [27880; 37322]%N ++ runes_of_ascii "
+//
+repeat string
+string_ ,
+} packet	x_y_z{ repeat	string i64_
+    //x
+    `two words` ,@leftPad (
+// " ++ [27880; 37322]%N ++ runes_of_ascii "
+// " ++ [128512]%N ++ runes_of_ascii " emoji
+) repeat int64 Foo ,
+match chars
+as int {""" ++ [28040; 24687]%N ++ runes_of_ascii """
+: o
+    /// triple
+    """ ++ [233]%N ++ runes_of_ascii "t" ++ [233]%N ++ runes_of_ascii """: crc,
+4294967296 : repeatCount
+// a // b
+// @lengthOf(
+, [1 ]  : As,
+[ 255,""" ++ [128512]%N ++ runes_of_ascii """
+    //
+    , ""x y""	,
+    ""{,}"", 4294967296,
+"""" ,
+    ""a\""b"" ,
+00 ] : u128 , // " ++ [128512]%N ++ runes_of_ascii " emoji
+""\" ++ [233]%N ++ runes_of_ascii """ : lengthOf ,
+    } , int64 uint8x
+    // c
+    , }
+")).
+Eval vm_compute in ("<<<M785>>>" ++ check (runes_of_ascii "packet asx {
+// c
+// " ++ [27880; 37322]%N ++ runes_of_ascii "
+u8 float , //	t
+}
+packet Logon { @tag(10 )@calculatedFrom(// @lengthOf(
+""packet"" ) i64
+    Logon @lengthOf(f32a ) ,zchar[ 1 ]stringy
+    @calculatedFrom(
+    ""// no comment"" )
+    `crlf
+line` ,
+    // @lengthOf(
+    match lengthOf as trueish { 255
+: string_// `tick` ""quote"" 'q'
+,
+// c
+// c
+4294967296: u
+    ,
+    } , @tag( 7 ) tag{ repeat crc, zchar
+    @calculatedFrom( ""\" ++ [233]%N ++ runes_of_ascii """
+)`{ , }` , } , char[] msg_type, repeat string Packet
+    `" ++ [28040; 24687; 31867; 22411]%N ++ runes_of_ascii "`  , }
+//x
+")).
+Eval vm_compute in ("<<<M4496>>>" ++ check (runes_of_ascii "options {
+    zchar = false;
+    Packet = ""`tick`"";
+    a1 = char[];
+    Packet = 0123456789;
+}
+
+packet msg_type {
+    /// triple
+    @lengthOf(u128)
+    body @lengthOf(len),
+    @calculatedFrom(""CRC32"")
+    zchar[007] repeatCount @lengthOf(Foo) `it's`,
+    i16 leftPad @calculatedFrom(""a\\"") `u8 x,`,
+    /// triple
+    float,
+    @lengthOf(a1)
+    As @lengthOf(rootA) `doc`,// " ++ [128512]%N ++ runes_of_ascii " emoji
+    f32 o @calculatedFrom(""a	b"") `tab	here`,
 }
 
 options {
-    // a // b
-    tag = """";
-    u8x = zchar[0]
 }
 
-MetaData int {
-    zchar[10] lengthOf ``,
-    i64 u8x `// not a comment`,
-    MetaDataX pack `crlf
-    line`,
-    Logon charz `crlf
-    line`,
+options {
 }")).
-Eval vm_compute in ("<<<M2278>>>" ++ check (runes_of_ascii "MetaData Packet { }packet	asx  { @lengthOf( asx) falsey`crlf
-line`
-,
-    char[
-    packet x	{uint32// @lengthOf(
-rootA	,u32 options1 `say ""hi""` , @tag( 7
-    )// packet A { u8 x, }
-msg_type @lengthOf(
-stringy	)	, }
-
-")).
-Eval vm_compute in ("<<<M737>>>" ++ check (runes_of_ascii "  MetaData x
-{Foo Header , char[ 0123456789 ] len
-,
-int64 i64_, char[
-    42 ] i8i8,i16 /// triple
-pack , int64 u8x
-    `it's` ,
-    }	packet pack // @lengthOf(
-{ @calculatedFrom( ""// no comment"" )len matchKey
-,}
-")).
-Eval vm_compute in ("<<<M2282>>>" ++ check (runes_of_ascii "MetaData Packet { }packet	asx  { @lengthOf( asx) falsey`crlf
-line`
-,
-    }
-    x packet	{uint32// @lengthOf(
-rootA	,u32 options1 `say ""hi""` , @tag( 7
-    )// packet A { u8 x, }
-msg_type @lengthOf(
-stringy	)	, }
-
-")).
-Eval vm_compute in ("<<<M2325>>>" ++ check (runes_of_ascii "MetaData Packet { }packet	asx  { @lengthOf( asx) falsey`crlf
-line`
-,
-    }
-    packet x	{uint32// @lengthOf(
-rootA	,u32 options1 `say ""hi""`  @tag( 7
-    )// packet A { u8 x, }
-msg_type @lengthOf(
-stringy	)	, }
-
-")).
-Eval vm_compute in ("<<<M2330>>>" ++ check (runes_of_ascii "MetaData Packet { }packet	asx  { @lengthOf( asx) falsey`crlf
-line`
-,
-    }
-    packet x	{uint32// @lengthOf(
-rootA	,u32 options1 `say ""hi""` ,  7
-    )// packet A { u8 x, }
-msg_type @lengthOf(
-stringy	)	, }
-
-")).
-Eval vm_compute in ("<<<M3868>>>" ++ check (runes_of_ascii "MetaData string_ {
-    len MetaDataX `
-    `,
-    char[] options1,
-    u tag,
-    options1 Z9_,
-    x f32a `line1
-    line2`,
-    zchar[0123456789] pack,
-}
-
-packet _x {
-    @leftPad()
-    char[10] roots,
-}")).
-Eval vm_compute in ("<<<M2359>>>" ++ check (runes_of_ascii "MetaData Packet { }packet	asx  { @lengthOf( asx) falsey`crlf
-line`
-,
-    }
-    packet x	{uint32// @lengthOf(
-rootA	,u32 options1 `say ""hi""` , @tag( 7
-    )// packet A { u8 x, }
-msg_type @lengthOf(")).
-Eval vm_compute in ("<<<M4230>>>" ++ check (runes_of_ascii "// top
-packet B {
-    // c2a
-    // c2b
-    u8 a,
-}// c6
-
-root packet P {
-    u8 K,// c13
-    match K as Body {
-        // c18
-        1 : B,
-    },
-    u16 L @lengthOf(Body),// c30a
-}// c31a")).
-Eval vm_compute in ("<<<M3923>>>" ++ check (runes_of_ascii "packet A {
-    Inner {
-        match k as n {
-            [
-                1, 22, 007, 4, 5,
-                66, 7, 8, 9, 10,
-                11
-            ] : B,
-        },
-    },
-}")).
-Eval vm_compute in ("<<<M1062>>>" ++ check (runes_of_ascii "packet body /// triple
-{ float32
-zchar @lengthOf(
-    x_y_z ), u64
-int @calculatedFrom(
+Eval vm_compute in ("<<<M726>>>" ++ check (runes_of_ascii "packet u
+{
+    @calculatedFrom( """"
+)float64 i8i8
+, @tag(42
+)@lengthOf( Z9_ ) @tag(  00	) Logon  metadata , float64 packetx
 // trailing space 
+// a // b
+,// c
+char[]trueish@calculatedFrom(""// no comment"" )	`" ++ [28040; 24687; 31867; 22411]%N ++ runes_of_ascii "`	,leftPad
+    , repeat  i32 x ,@calculatedFrom(	""" ++ [233]%N ++ runes_of_ascii "t" ++ [233]%N ++ runes_of_ascii """ )u16
+    As,
+repeat
+    char[] Header , match
+T
+as falsey {
+10
+:
+    string_ }
+// " ++ [27880; 37322]%N ++ runes_of_ascii "
+//x
+, } packet A {zchar[ 42]
+rootA
+    ,f32	pack
+@lengthOf(
+    zchar)  , // @lengthOf(
+}
+")).
+Eval vm_compute in ("<<<M456>>>" ++ check (runes_of_ascii "MetaData  rootA {
+char[ 42 ] body `tab	here` , string pack, zchar[ 65535 ]A // trailing space 
+`it's` ,i64_
+    Pad , } MetaData
+leftPad { int16 u, } packet trueish
+{ @tag(00
+    ) char[ 42 ]
+    MetaDataX `crlf
+line` , @lengthOf(asx  ) chars
+charz
+    ,@rightPad
 //
-""abc"" ) //x
+// c
+(
+'0')
+@lengthOf( a1 ) char[] Packet @calculatedFrom( ""x y"" )  `crlf
+line` , len i8i8 , @rightPad (
+    '\x00')options1 {	x
+@lengthOf( Z9_ ) , } ,}")).
+Eval vm_compute in ("<<<M3544>>>" ++ check (runes_of_ascii "options {
+    LittleEndian = false;
+    StringPrefixLenType = u8;
+    ArrayPrefixLenType = u16;
+    FixedStringPadFromLeft = false;
+}
+packet Heartbeat {
+    u8 seqNo,
+    @rightPad('\x00') char[8] x,
+}
+root packet Trade {
+    repeat Heartbeat,
+    float32 OrderId,
+    i64 Acct,
+    u16 Qty,
+    u16 clOrdID,
+    match clOrdID as Body {
+        131 : Heartbeat,
+    },
+    u16 sym @calculatedFrom(""CRC32""),
+}
+")).
+Eval vm_compute in ("<<<M1067>>>" ++ check (runes_of_ascii "packet
+i64_	{
+x_y_z
+`it's`, o @lengthOf( i64_ )
+    // a // b
+    ,
+    char[007	]trueish
+// trailing space 
+/// triple
+@lengthOf( leftPad )
+    ,
+} MetaData tag {
+    char[ 65535
+]
+// c
+/// triple
+pack ,
+int64  Logon`two words` , // a // b
+}
+packet u8x
+{ float64
+    lengthOf , repeat char[]
+As,
+    u
+BodyLength ,tag { repeat BodyLength	{// a // b
+uint16 zchar `doc`,	}
+    ,
+    } , }
+")).
+Eval vm_compute in ("<<<M768>>>" ++ check (runes_of_ascii "
+packet Pad
+{@lengthOf(
+x ) match Header as // c
+A
+// " ++ [27880; 37322]%N ++ runes_of_ascii "
+// @lengthOf(
+{  """ ++ [128512]%N ++ runes_of_ascii """
+    : // c
+x_y_z [""" ++ [233]%N ++ runes_of_ascii "t" ++ [233]%N ++ runes_of_ascii """ ]: body }// `tick` ""quote"" 'q'
+, @calculatedFrom( ""a\""b""	)float32 uint8x ,	int16 roots, @calculatedFrom( ""abc"" ) i8 len
+    // `tick` ""quote"" 'q'
+    @lengthOf(
+x_y_z ), }
+    packet chars
+    { string Packet `doc`	, rootA {
+    repeat o , }
+, pack stringy	`" ++ [28040; 24687; 31867; 22411]%N ++ runes_of_ascii "` , }")).
+Eval vm_compute in ("<<<M3693>>>" ++ check (runes_of_ascii "//x
+packet int
+	{  repeat
+options1
+falsey
+    , 
+@lengthOf( // " ++ [128512]%N ++ runes_of_ascii " emoji
+roots
+
+    )
+
+    f32 
+Header @lengthOf( leftPad
+    ) 
+,  repeat
+
+    crc uint8x
+
+    ,
+
+falsey{
+	_x
+	body  `
+` , repeat	Packet	Foo
 ,
+	uint64
+As
+
+@calculatedFrom(
+	""1"" )`
+`
+
+    , repeat
+	Header  ,
+    } ,
+char[ 7 ]  
+      /// triple
+
+Logon@calculatedFrom(
+""a\\""
+	) ,
+
+}
+")).
+Eval vm_compute in ("<<<M74>>>" ++ check (runes_of_ascii "// packet A { u8 x, }
+root packet
+charz {
+    matchKey { repeat
+    Foo { // trailing space 
+uint8 chars @lengthOf(	x
+    ) , } //
+, pack{rootA@lengthOf( MetaDataX// c
+) , } // a // b
+, roots{zchar[	10	]
+    leftPad ,
+    } ,	repeat pack
+stringy`two words` ,	}, } packet rootA {char[ 10 ]
+    x_y_z
+`{ , }` , uint64 falsey ,
     // " ++ [27880; 37322]%N ++ runes_of_ascii "
     }
-root packet u
-    //x
-    { }
 ")).
-Eval vm_compute in ("<<<M1330>>>" ++ check (runes_of_ascii "packet len{	}//	t
-root packet Pad {char[] Header	, @lengthOf(	falsey
-    )
-    // " ++ [128512]%N ++ runes_of_ascii " emoji
-    char[] Header , len`line1
-line2`
-,} packet asx { repeat int16
-    u , }
+Eval vm_compute in ("<<<M1370>>>" ++ check (runes_of_ascii "options	{ rootA =""" ++ [28040; 24687]%N ++ runes_of_ascii """
+    ;a1 = // a // b
+'\x00' ;
+    asx=	' '} MetaData string_ { char[]
+    i64_ `it's` ,  }
+packet
+float {@calculatedFrom(	""// no comment"" ) repeat char[]  Z9_, @lengthOf(
+Foo
+    ) uint16
+u @calculatedFrom( ""\n"" )	, repeat uint32 a1 , // `tick` ""quote"" 'q'
+Logon
+// " ++ [128512]%N ++ runes_of_ascii " emoji
+// " ++ [128512]%N ++ runes_of_ascii " emoji
+`line1
+line2`, }
+//
 ")).
-Eval vm_compute in ("<<<M3887>>>" ++ check (runes_of_ascii "packet A {
-    match k as n {
-        [
-            1, 007, 5, 7, 9,
-            11, ""bb"", ""d"", ""f"", ""h"",
-            ""j""
-        ] : B,
-        2 : C,
-    },
+Eval vm_compute in ("<<<M4183>>>" ++ check (runes_of_ascii "MetaData u8x {
+    packetx len `crlf
+        line`,
+    char[255] calculatedFrom `" ++ [28040; 24687; 31867; 22411]%N ++ runes_of_ascii "`,
+    float64 MetaDataX `say ""hi""`,
+    BodyLength charz `crlf
+        line`,
+}
+
+packet lengthOf {
+    //	t
+    @tag(4294967296)
+    uint8x @calculatedFrom(""\n"") `" ++ [28040; 24687; 31867; 22411]%N ++ runes_of_ascii "`,
+    char calculatedFrom @calculatedFrom(""" ++ [28040; 24687]%N ++ runes_of_ascii """) `two words`,
 }")).
-Eval vm_compute in ("<<<M422>>>" ++ check (runes_of_ascii "options { chars = ""abc"" ;}
-    packet string_
-{uint8x
-x_y_z ,string
-Header`
-` , } packet pack// a // b
-{ Z9_
-@lengthOf( chars
-    ) /// triple
-`" ++ [233]%N ++ runes_of_ascii "` ,}
+Eval vm_compute in ("<<<M3808>>>" ++ check (runes_of_ascii "packet
+
+body 
+{ 
+i32  options1
+
+    ,} packet
+int{repeat 
+f32a
+{
+
+options1@calculatedFrom(  ""abc"" 	 // " ++ [27880; 37322]%N ++ runes_of_ascii "
+
+	)
+
+// a // b
+
+, zchar[  4294967296
+]
+calculatedFrom
+,	x_y_z
+@calculatedFrom(
+""packet""
+)
+`say ""hi""`
+    ,
+}
+,
+	}  packet
+x_y_z 
+{ repeat
+float64
+
+MetaDataX `crlf
+line` //	t
+,crc
+
+A	``,  }
+
 ")).
-Eval vm_compute in ("<<<M4107>>>" ++ check (runes_of_ascii "packet lengthOf {
-    @leftPad()
-    @tag(7)
-    u8 BodyLength,
-    char[1] chars `
-    `,
-    @tag(00)
-    char[0] Z9_ @lengthOf(float) `u8 x,`,
-}")).
-Eval vm_compute in ("<<<M3932>>>" ++ check (runes_of_ascii "root packet T {
-}
-
-MetaData msg_type {
-    i64_ i64_,
-}
-
-root packet x_y_z {
-}
-
-MetaData crc {
-    o zchar `line1
-    line2`,
-}
-
-packet x {
-}")).
-Eval vm_compute in ("<<<M1508>>>" ++ check (runes_of_ascii "root packet Foo // " ++ [128512]%N ++ runes_of_ascii " emoji
+Eval vm_compute in ("<<<M1420>>>" ++ check (runes_of_ascii "root packet Foo Foo // " ++ [128512]%N ++ runes_of_ascii " emoji
 { } options {
     // a // b
     tag // `tick` ""quote"" 'q'
@@ -2202,384 +1648,792 @@ Eval vm_compute in ("<<<M1508>>>" ++ check (runes_of_ascii "root packet Foo // "
 """"
     ; u8x = zchar[0  ] }
 MetaData
-    int")).
-Eval vm_compute in ("<<<M4262>>>" ++ check (runes_of_ascii "// c
-    packet Logon
-{	@tag( 42
-) 
-repeat
-i64_	{As
-crc
-	, } ,
-} packet x_y_z {
+    int {zchar[ 10]
+lengthOf	`` , i64 u8x`// not a comment` ,MetaDataX pack// `tick` ""quote"" 'q'
+`crlf
+line`
+, Logon charz `crlf
+line`
+    ,
+    // a // b
+    }
+")).
+Eval vm_compute in ("<<<M1450>>>" ++ check (runes_of_ascii "root packet Foo // " ++ [128512]%N ++ runes_of_ascii " emoji
+{ } options {
+    // a // b
+    tag // `tick` ""quote"" 'q'
+= = //	t
+""""
+    ; u8x = zchar[0  ] }
+MetaData
+    int {zchar[ 10]
+lengthOf	`` , i64 u8x`// not a comment` ,MetaDataX pack// `tick` ""quote"" 'q'
+`crlf
+line`
+, Logon charz `crlf
+line`
+    ,
+    // a // b
+    }
+")).
+Eval vm_compute in ("<<<M1619>>>" ++ check (runes_of_ascii "root packet Foo // " ++ [128512]%N ++ runes_of_ascii " emoji
+{ } options {
+    // a //# b
+    tag // `tick` ""quote"" 'q'
+= //	t
+""""
+    ; u8x = zchar[0  ] }
+MetaData
+    int {zchar[ 10]
+lengthOf	`` , i64 u8x`// not a comment` ,MetaDataX pack// `tick` ""quote"" 'q'
+`crlf
+line`
+, Logon charz `crlf
+line`
+    ,
+    // a // b
+    }
+")).
+Eval vm_compute in ("<<<M1551>>>" ++ check (runes_of_ascii "root packet Foo // " ++ [128512]%N ++ runes_of_ascii " emoji
+{ } options {
+    // a // b
+    tag // `tick` ""quote"" 'q'
+= //	t
+""""
+    ; u8x = zchar[0  ] }
+MetaData
+    int {zchar[ 10]
+lengthOf	`` , i64 u8x, `// not a comment`MetaDataX pack// `tick` ""quote"" 'q'
+`crlf
+line`
+, Logon charz `crlf
+line`
+    ,
+    // a // b
+    }
+")).
+Eval vm_compute in ("<<<M1599>>>" ++ check (runes_of_ascii "root packet Foo // " ++ [128512]%N ++ runes_of_ascii " emoji
+{ } options {
+    // a // b
+    tag // `tick` ""quote"" 'q'
+= //	t
+""""
+    ; u8x = zchar[0  ] }
+MetaData
+    int {zchar[ 10]
+lengthOf	`` , i64 u8x`// not a comment` ,MetaDataX pack// `tick` ""quote"" 'q'
+`crlf
+line`
+, Logon charz `crlf
+line`
+    ,
+    // a // b
+    
+")).
+Eval vm_compute in ("<<<M4363>>>" ++ check (runes_of_ascii "MetaData 
+// a // b
+	  uint8x	/// triple
+	{
+}packet matchKey{ @rightPad
+    (
+    )
+	a1
 
-    @lengthOf( 
-x_y_z
-	)
+    { zchar[ 1 ]
+
+    u128 @calculatedFrom(
+    ""a\""b"" ),
+i64_
+i8i8,  
+      // c
+	repeat
+
+    int
+roots
+    ,
     i8
-	u
+	charz 
+    //
+// packet A { u8 x, }
+  ,}
 
-`it's`
-,
-}")).
-Eval vm_compute in ("<<<M70>>>" ++ check (runes_of_ascii "MetaData f32a{uint8 // a // b
-repeatCount, x_y_z i8i8, f32 msg_type , charz
-lengthOf `tab	here`, char[	7
-    ]chars,float  x ,
+    ,
+}
+
+options { 
+}
+
+")).
+Eval vm_compute in ("<<<M3517>>>" ++ check (runes_of_ascii "options {
+    LittleEndian = true;
+    ArrayPrefixLenType = u64;
+    FixedStringPadFromLeft = false;
+}
+packet Quote {
+}
+root packet Order {
+    i64 Side2,
+    Quote,
+    u32 Px,
+    match Px as Body {
+        [119, 147] : Quote,
+    },
+    u16 Flags @calculatedFrom(""CR\
+C32""),
 }
 ")).
-Eval vm_compute in ("<<<M1639>>>" ++ check (runes_of_ascii "root packet /// triple
-rootA i32	{
-MetaDataX@calculatedFrom( ""CRC32"" ) `line1
+Eval vm_compute in ("<<<M601>>>" ++ check (runes_of_ascii "
+options { } root packet lengthOf { repeat//x
+int
+    , string trueish @lengthOf( MetaDataX ) `say ""hi""` , int64 x_y_z
+// trailing space 
+// packet A { u8 x, }
+, } packet // a // b
+calculatedFrom
+{@tag( 10
+// packet A { u8 x, }
+/// triple
+) zchar leftPad
+`it's` , }")).
+Eval vm_compute in ("<<<M243>>>" ++ check (runes_of_ascii "packet leftPad{
+    trueish { char[] charz	@calculatedFrom(  ""\n"" )
+// @lengthOf(
+//x
+,
+    } , @rightPad
+    ( '0' ) @tag( 255 )len {
+    zchar[
+65535
+] f32a , }
+,f64
+    i8i8	`` , } options {chars = 00 Pad =
+    false // a // b
+stringy =
+string
+    }
+")).
+Eval vm_compute in ("<<<M3813>>>" ++ check (runes_of_ascii "  packet  x_y_z 	 //x
+  {
+@tag(
+
+0123456789 
+) match// " ++ [27880; 37322]%N ++ runes_of_ascii "
+  T	as
+
+    roots
+	{ 255	:  asx
+,
+[  1
+
+    //x
+,  3 
+,	""`tick`""]
+:
+    Header
+
+3 :
+    pack	// " ++ [128512]%N ++ runes_of_ascii " emoji
+	}
+,
+
+    u64 
+a1/// triple
+    `tab	here`	,
+	_x  options1
+
+    `{ , }`, }")).
+Eval vm_compute in ("<<<M669>>>" ++ check (runes_of_ascii "
+root packet roots { @tag( 42  )repeat // " ++ [128512]%N ++ runes_of_ascii " emoji
+string //	t
+options1,
+}
+MetaData crc{ pack metadata `line1
+line2`
+,	int64 asx
+// a // b
+//	t
+, // " ++ [27880; 37322]%N ++ runes_of_ascii "
+A float ,char[65535 ]Z9_ `tab	here`
+,
+u8 u128 `` // trailing space 
+,// a // b
+}
+")).
+Eval vm_compute in ("<<<M3747>>>" ++ check (runes_of_ascii "root packet BodyLength {
+    //x
+    //	t
+    @rightPad(' ')
+    f32 _x @lengthOf(Header) `" ++ [28040; 24687; 31867; 22411]%N ++ runes_of_ascii "`,
+    @lengthOf(crc)
+    // a // b
+    @tag(007)
+    char[] a1,
+}
+
+packet metadata {
+    Foo @calculatedFrom(""\n""),
+    char _x,
+}")).
+Eval vm_compute in ("<<<M2296>>>" ++ check (runes_of_ascii "MetaData Packet { }packet	asx  { @lengthOf( asx) falsey`crlf
+line`
+,
+    }
+    packet x	{uint32 uint32// @lengthOf(
+rootA	,u32 options1 `say ""hi""` , @tag( 7
+    )// packet A { u8 x, }
+msg_type @lengthOf(
+stringy	)	, }
+
+")).
+Eval vm_compute in ("<<<M2241>>>" ++ check (runes_of_ascii "MetaData Packet { }packet	asx  { { @lengthOf( asx) falsey`crlf
+line`
+,
+    }
+    packet x	{uint32// @lengthOf(
+rootA	,u32 options1 `say ""hi""` , @tag( 7
+    )// packet A { u8 x, }
+msg_type @lengthOf(
+stringy	)	, }
+
+")).
+Eval vm_compute in ("<<<M2390>>>" ++ check (runes_of_ascii "MetaData Packet { }packet	asx  { @lengthOf( asx) falsey`crlf
+line`
+,
+    }
+|    packet x	{uint32// @lengthOf(
+rootA	,u32 options1 `say ""hi""` , @tag( 7
+    )// packet A { u8 x, }
+msg_type @lengthOf(
+stringy	)	, }
+
+")).
+Eval vm_compute in ("<<<M2352>>>" ++ check (runes_of_ascii "MetaData Packet { }packet	asx  { @lengthOf( asx) falsey`crlf
+line`
+,
+    }
+    packet x	{uint32// @lengthOf(
+rootA	,u32 options1 `say ""hi""` , @tag( 7
+    )// packet A { u8 x, }
+msg_type stringy
+@lengthOf(	)	, }
+
+")).
+Eval vm_compute in ("<<<M1068>>>" ++ check (runes_of_ascii "MetaData pack
+    {Header  len ,  } packet
+i8i8	{pack @lengthOf( // @lengthOf(
+int )
+, }root packet
+// `tick` ""quote"" 'q'
+// c
+MetaDataX {char[007 ] metadata ,}
+MetaData //x
+MetaDataX { int
+    //x
+    o , }
+")).
+Eval vm_compute in ("<<<M917>>>" ++ check (runes_of_ascii "options { uint8x = ""\n"" ;
+// " ++ [128512]%N ++ runes_of_ascii " emoji
+// packet A { u8 x, }
+}packet
+    //
+    repeatCount {
+roots
+len ,
+@lengthOf( f32a )
+    // `tick` ""quote"" 'q'
+    o `say ""hi""` ,
+    }//	t
+options //x
+{ a1 = u32 ; }
+")).
+Eval vm_compute in ("<<<M715>>>" ++ check (runes_of_ascii "packet u128 // packet A { u8 x, }
+{ @tag( 00 )
+    // trailing space 
+    i64 msg_type @calculatedFrom(
+""x y"" ) , repeat //
+calculatedFrom u//
+, @rightPad
+('0')repeat string chars`` , int8 metadata,}
+")).
+Eval vm_compute in ("<<<M13>>>" ++ check (runes_of_ascii "packet crc {
+@tag(  0123456789// " ++ [128512]%N ++ runes_of_ascii " emoji
+) i64 uint8x , }
+MetaData i8i8 {
+    zchar[
+    65535 ] int, }	packet lengthOf  {
+// trailing space 
+//	t
+@leftPad	('0')	falsey int ,	}
+// @lengthOf(
+")).
+Eval vm_compute in ("<<<M4043>>>" ++ check (runes_of_ascii "MetaData	int
+    {  string Z9_ `say ""hi""`
+,	char[]  // @lengthOf(
+	uint8x 	 // packet A { u8 x, }
+	`// not a comment`  ,  char[]
+    Foo
+,trueish
+	T
+, 	 // " ++ [27880; 37322]%N ++ runes_of_ascii "
+    asx  asx
+    ,
+}
+")).
+Eval vm_compute in ("<<<M3456>>>" ++ check (runes_of_ascii "// top
+root // c0
+packet P // c2a
+  // c2b
+{ u16 // c4
+a // c5a
+  // c5b
+, // c6
+u32 // c7
+Sum @calculatedFrom(
+    // c9
+""CRC32"" // c10
+) , // c12a
+  // c12b
+} // c13a
+  // c13b
+")).
+Eval vm_compute in ("<<<M4514>>>" ++ check (runes_of_ascii "MetaData options1 {
+    packetx x `
+        `,//	t
+}
+
+options {
+    x_y_z = true
+    options1 = char[];
+    body = 65535/// triple
+    lengthOf = ""it's"";
+    x = '\x00'
+}")).
+Eval vm_compute in ("<<<M1183>>>" ++ check (runes_of_ascii "packet Z9_
+{@calculatedFrom( ""{,}"" ) roots //x
+{ len {
+    msg_type //x
+,uint8x `{ , }`  , zchar[
+// trailing space 
+// " ++ [128512]%N ++ runes_of_ascii " emoji
+0
+] //	t
+matchKey ,
+    } , } , }
+")).
+Eval vm_compute in ("<<<M553>>>" ++ check (runes_of_ascii "MetaData
+i64_ { float32 BodyLength
+    // a // b
+    , int8
+tag
+`two words` , roots
+a1 `crlf
+line` ,}  MetaData f32a { int64 o
+    `tab	here`, i32
+    A, }")).
+Eval vm_compute in ("<<<M492>>>" ++ check (runes_of_ascii "
+root
+packet chars
+    {
+repeat
+a1 { trueish x `" ++ [28040; 24687; 31867; 22411]%N ++ runes_of_ascii "` ,	},
+}
+MetaData metadata { int32
+int
+, f64 uint8x `say ""hi""` //
+, i64 rootA `crlf
+line` ,}
+")).
+Eval vm_compute in ("<<<M1653>>>" ++ check (runes_of_ascii "root packet /// triple
+rootA {	i32
+MetaDataX@calculatedFrom( @calculatedFrom( ""CRC32"" ) `line1
 line2` , } MetaData BodyLength {
 u8
 rootA, } // c")).
-Eval vm_compute in ("<<<M3888>>>" ++ check (runes_of_ascii "packet
-
-    Logon
-
-{
-
-@tag(	42) @rightPad
-    (' '
-
-    ) @leftPad()
-repeat
-
-    trueish
-{ string T
-	// c
-    ,} , }
-")).
-Eval vm_compute in ("<<<M368>>>" ++ check (runes_of_ascii "MetaData Header
-    {
-    f64 lengthOf,zchar[ 7 ] zchar
-// `tick` ""quote"" 'q'
-// `tick` ""quote"" 'q'
-`doc` ,
-len
-x_y_z
-, } 	 ")).
-Eval vm_compute in ("<<<M1796>>>" ++ check (runes_of_ascii "packet
-    Pad // a // b
-{ i8i8 i8i8 @calculatedFrom( ""a	b"") `u8 x,` ,
-} options{ float// " ++ [128512]%N ++ runes_of_ascii " emoji
-= f64 i64_
-=//	t
-00 }
-")).
-Eval vm_compute in ("<<<M4222>>>" ++ check (runes_of_ascii "  packet	Logon
-{
-    @tag( 42  ) @rightPad
-(
-	' ' )@leftPad
-
-    (
-
-) 
-// c
-	repeat
-    trueish 
-{string
-	T 
-,
-	} ,	}
-")).
-Eval vm_compute in ("<<<M1881>>>" ++ check (runes_of_ascii "packet
-    Pad // a // b
-{ i8i8 @calculatedFrom( ""a	b"") `u8 x,` ,
-} options{ float// " ++ [128512]%N ++ runes_of_ascii " emoji
-= f64 i64_
-/=//	t
-00 }
-")).
-Eval vm_compute in ("<<<M1852>>>" ++ check (runes_of_ascii "packet
-    Pad // a // b
-{ i8i8 @calculatedFrom( ""a	b"") `u8 x,` ,
-} options{ float// " ++ [128512]%N ++ runes_of_ascii " emoji
-= i64_ f64
-=//	t
-00 }
-")).
-Eval vm_compute in ("<<<M1667>>>" ++ check (runes_of_ascii "root packet /// triple
-rootA {	i32
-MetaDataX@calculatedFrom( ""CRC32"" )  , } MetaData BodyLength {
-u8
-rootA, } // c")).
-Eval vm_compute in ("<<<M1795>>>" ++ check (runes_of_ascii "packet
-    Pad // a // b
-{  @calculatedFrom( ""a	b"") `u8 x,` ,
-} options{ float// " ++ [128512]%N ++ runes_of_ascii " emoji
-= f64 i64_
-=//	t
-00 }
-")).
-Eval vm_compute in ("<<<M1830>>>" ++ check (runes_of_ascii "packet
-    Pad // a // b
-{ i8i8 @calculatedFrom( ""a	b"") `u8 x,` ,
-} { float// " ++ [128512]%N ++ runes_of_ascii " emoji
-= f64 i64_
-=//	t
-00 }
-")).
-Eval vm_compute in ("<<<M2986>>>" ++ check (runes_of_ascii "packet A {
-  match k as n {
-    [""a"", ""bb"", 007, ""d"", ""e"", 66, ""g"", ""h"", 9, ""j"", ""k""] : B,
-    2 : C
-  },
+Eval vm_compute in ("<<<M3829>>>" ++ check (runes_of_ascii "packet A {
+    Inner {
+        u8 x `
+                x`,
+        Deep {
+            u8 y `
+                        x`,
+        },
+    },
 }")).
-Eval vm_compute in ("<<<M3451>>>" ++ check (runes_of_ascii "options {
-    LittleEndian = true;
+Eval vm_compute in ("<<<M1303>>>" ++ check (runes_of_ascii "root packet lengthOf { char[00 ]  x@lengthOf(
+matchKey ) ,
+    //	t
+    float64 repeatCount // c
+, @lengthOf(	zchar
+)	char[]roots  ,	}
+")).
+Eval vm_compute in ("<<<M4261>>>" ++ check (runes_of_ascii "packet A {
+    u8 a,
+}
+
+packet B {
+    u16 b,
+}
+
+root packet P {
+    u8 K,
+    match K as M {
+        1 : A,
+        1 : B,
+    },
+}")).
+Eval vm_compute in ("<<<M4398>>>" ++ check (runes_of_ascii "  packet	A
+
+    {match k
+    as n	{	[
+
+""a"" 
+,
+
+    ""bb""
+,
+""c c""
+
+    ,
+""d"" ,
+
+    ""e"",	""f""  ]
+:
+B,
+
+    2: 
+C 
+} ,
+    }")).
+Eval vm_compute in ("<<<M1714>>>" ++ check (runes_of_ascii "root packet /// triple
+rootA {	i32
+MetaDataX@calculatedFrom( ""CRC32"" ) `line1
+line2` , } MetaData BodyLength {
+u8
+rootA, A // c")).
+Eval vm_compute in ("<<<M1705>>>" ++ check (runes_of_ascii "root packet /// triple
+rootA {	i32
+MetaDataX@calculatedFrom( ""CRC32"" ) `line1
+line2` , } MetaData BodyLength {
+u8
+i8, } // c")).
+Eval vm_compute in ("<<<M1806>>>" ++ check (runes_of_ascii "packet
+    Pad // a // b
+{ i8i8 @calculatedFrom( ""a	b"" ""a	b"") `u8 x,` ,
+} options{ float// " ++ [128512]%N ++ runes_of_ascii " emoji
+= f64 i64_
+=//	t
+00 }
+")).
+Eval vm_compute in ("<<<M3433>>>" ++ check (runes_of_ascii "packet B {
+    u8 a,
 }
 root packet P {
-    u16 a,
-    u32 Sum @calculatedFrom(""CRC32""),
+    u8 K,
+    u8 L @lengthOf(Body),
+    match K as Body {
+        1 : B,
+    },
 }
 ")).
-Eval vm_compute in ("<<<M3359>>>" ++ check (runes_of_ascii "packet calculatedFrom { @tag( 4294967296 ) u msg_type , char[ 3 // c
-] crc @lengthOf( len ) `u8 x,` , }")).
-Eval vm_compute in ("<<<M2980>>>" ++ check (runes_of_ascii "packet A {
-  match k as n {
-    [1, ""bb"", 007, ""d"", 5, ""f"", 7, ""h"", 9, ""j"", 11] : B,
-    2 : C
-  },
-}")).
-Eval vm_compute in ("<<<M575>>>" ++ check (runes_of_ascii "// @lengthOf(
-packet o/// triple
-{string
-pack
-, // packet A { u8 x, }
-trueish `" ++ [233]%N ++ runes_of_ascii "`, } /// triple")).
-Eval vm_compute in ("<<<M777>>>" ++ check (runes_of_ascii "
-options
-    {	matchKey =
-0 BodyLength =
-uint64 ; pack  = ""1"" ;
-    f32a = i64 Foo=
-    ""a	b"" }")).
-Eval vm_compute in ("<<<M3241>>>" ++ check (runes_of_ascii "packet Logon { @tag( 42 ) @rightPad ( ' ' ) @leftPad ( )
-// c
-repeat trueish { string T , } , }")).
-Eval vm_compute in ("<<<M4470>>>" ++ check (runes_of_ascii "
-packet
-	crc
-
-    { f32a
-    @calculatedFrom(""" ++ [233]%N ++ runes_of_ascii "t" ++ [233]%N ++ runes_of_ascii """
-    )
-    `say ""hi""` 
-,
-
-lengthOf
-`` ,}
+Eval vm_compute in ("<<<M1868>>>" ++ check (runes_of_ascii "packet
+    Pad // a // b
+{ i8i8 @calculatedFrom( ""a	b"") `u8 x,` ,
+} options{ float// " ++ [128512]%N ++ runes_of_ascii " emoji
+= f64 i64_
+=//	t
+root }
 ")).
-Eval vm_compute in ("<<<M4016>>>" ++ check (runes_of_ascii "packet  o{  @tag( 42
-) repeat x
+Eval vm_compute in ("<<<M4220>>>" ++ check (runes_of_ascii "
+options	{i8i8
 
-{
+    =	""// no comment""
 
-char[
+    ; o
+= 
+'0'Header  =
+'0'
+    ;
 
-0123456789]
+    a1 =
+	zchar[  1
+    ]
 
-i64_ ,} , // c
-	}	options 
-{
-    }")).
-Eval vm_compute in ("<<<M2935>>>" ++ check (runes_of_ascii "packet A {
+    }
+
+")).
+Eval vm_compute in ("<<<M437>>>" ++ check (runes_of_ascii "options { calculatedFrom= ""a\""b"" calculatedFrom=
+i64 MetaDataX //
+=  ""x y""msg_type = char[1
+/// triple
+// c
+] ;} //x")).
+Eval vm_compute in ("<<<M99>>>" ++ check (runes_of_ascii "// c
+packet Logon
+    {
+@tag(
+42 )
+    repeat i64_ {As crc , }, } packet x_y_z { @lengthOf( x_y_z ) i8
+u `it's`, }")).
+Eval vm_compute in ("<<<M4408>>>" ++ check (runes_of_ascii "// top
+root packet P {
+    u16 a,// c6
+    u32 Sum @calculatedFrom(""CRC32""),// c12a
+    // c12b
+}// c13a
+// c13b")).
+Eval vm_compute in ("<<<M1696>>>" ++ check (runes_of_ascii "root packet /// triple
+rootA {	i32
+MetaDataX@calculatedFrom( ""CRC32"" ) `line1
+line2` , } MetaData BodyLength")).
+Eval vm_compute in ("<<<M3040>>>" ++ check (runes_of_ascii "packet A {
+    u16 len @lengthOf(body) `
+x`,
+    u32 crc @calculatedFrom(""CRC32"") `
+x`,
+    string body,
+}")).
+Eval vm_compute in ("<<<M2983>>>" ++ check (runes_of_ascii "packet A {
   match k as n {
-    [""a"", ""bb"", 007, ""d"", ""e"", 66, ""g""] : B
+    [""a"", 22, ""c c"", 4, ""e"", 66, ""g"", 8, ""i"", 10, ""k""] : B
     2 : C
   },
 }")).
-Eval vm_compute in ("<<<M2034>>>" ++ check (runes_of_ascii "root
-packet " ++ [233]%N ++ runes_of_ascii "crc
+Eval vm_compute in ("<<<M3366>>>" ++ check (runes_of_ascii "packet calculatedFrom { @tag( 4294967296 ) u msg_type , char[ 3 ] crc @lengthOf(
+// c
+len ) `u8 x,` , }")).
+Eval vm_compute in ("<<<M3928>>>" ++ check (runes_of_ascii "packet
+Logon
+{ 
+@tag(	42 
+) @rightPad	(  ' '	)@leftPad( ) repeat trueish {
+string  T  ,
+}  , } 	 // c")).
+Eval vm_compute in ("<<<M1111>>>" ++ check (runes_of_ascii "
+options { Foo=""`tick`""pack=
+    //
+    """ ++ [233]%N ++ runes_of_ascii "t" ++ [233]%N ++ runes_of_ascii """ ;leftPad
+= false ; int
+=char[] ; a1 =i16
+    ;
+}
+")).
+Eval vm_compute in ("<<<M961>>>" ++ check (runes_of_ascii "options  { }MetaData
+    u128 {
+int64 u8x
+,lengthOf
+    u128 `it's` // c
+,}options//	t
+{ // c
+}")).
+Eval vm_compute in ("<<<M3242>>>" ++ check (runes_of_ascii "packet Logon { @tag( 42 ) @rightPad ( ' ' ) @leftPad ( ) repeat // c
+trueish { string T , } , }")).
+Eval vm_compute in ("<<<M2032>>>" ++ check (runes_of_ascii "root
+packet crc
+    { f32a @calculatedFrom( """ ++ [233]%N ++ runes_of_ascii "t" ++ [233]%N ++ runes_of_ascii """ )
+    `say ""hi""`, lengthOf `` ,  }@leftpad")).
+Eval vm_compute in ("<<<M3674>>>" ++ check (runes_of_ascii "packet
+
+A 
+{
+match k
+as 
+n
+{ 
+[
+	1
+
+,22
+
+    ,
+
+007
+
+, 4
+,
+	5
+	]	:
+B ,
+2:C
+	}
+
+    ,} ")).
+Eval vm_compute in ("<<<M4309>>>" ++ check (runes_of_ascii "options {
+    repeatCount = ""CRC32""
+    x = true//x
+    u = ""\" ++ [233]%N ++ runes_of_ascii """;
+    stringy = '\x00';
+}")).
+Eval vm_compute in ("<<<M3778>>>" ++ check (runes_of_ascii "packet A {
+    B b `a
+        b`,
+    B `a
+        b`,
+    repeat B bs `a
+        b`,
+}")).
+Eval vm_compute in ("<<<M1964>>>" ++ check (runes_of_ascii "root
+crc packet
     { f32a @calculatedFrom( """ ++ [233]%N ++ runes_of_ascii "t" ++ [233]%N ++ runes_of_ascii """ )
     `say ""hi""`, lengthOf `` ,  }")).
-Eval vm_compute in ("<<<M2945>>>" ++ check (runes_of_ascii "packet A {
+Eval vm_compute in ("<<<M2921>>>" ++ check (runes_of_ascii "packet A {
   match k as n {
-    [1, 22, ""c c"", 4, 5, ""f"", 7, 8] : B,
+    [""a"", ""bb"", 007, ""d"", ""e"", 66] : B,
     2 : C
   },
 }")).
-Eval vm_compute in ("<<<M177>>>" ++ check (runes_of_ascii "MetaData Header
-{ trueish u8x , zchar[ 42 ] Packet
-    , char asx	,// @lengthOf(
-}")).
-Eval vm_compute in ("<<<M3300>>>" ++ check (runes_of_ascii "packet o { @tag( // c
-42 ) repeat x { char[ 0123456789 ] i64_ , } , } options { }")).
-Eval vm_compute in ("<<<M3480>>>" ++ check (runes_of_ascii "packet orderItem {
-    u8 a,
-}
-root packet newOrder {
-    orderItem,
-    u8 x,
-}
-")).
-Eval vm_compute in ("<<<M3427>>>" ++ check (runes_of_ascii "packet Inner {
-    u8 a,
-}
-root packet P {
-    repeat Inner items,
-    u8 x,
-}
-")).
-Eval vm_compute in ("<<<M2888>>>" ++ check (runes_of_ascii "packet A {
+Eval vm_compute in ("<<<M2937>>>" ++ check (runes_of_ascii "packet A {
   match k as n {
-    [""a"", ""bb"", ""c c"", ""d""] : B
+    [1, 22, 007, 4, 5, 66, 7, 8] : B,
     2 : C
   },
 }")).
-Eval vm_compute in ("<<<M41>>>" ++ check (runes_of_ascii "MetaData// " ++ [128512]%N ++ runes_of_ascii " emoji
-charz
-{zchar[
-    42] packetx
-    `crlf
-line` , } 	 ")).
-Eval vm_compute in ("<<<M2893>>>" ++ check (runes_of_ascii "packet A {
-  match k as n {
-    [1, 22, ""c c"", 4] : B,
-    2 : C
-  },
-}")).
-Eval vm_compute in ("<<<M3404>>>" ++ check (runes_of_ascii "MetaData _x { zchar[ 4294967296
+Eval vm_compute in ("<<<M3309>>>" ++ check (runes_of_ascii "packet o { @tag( 42 ) repeat x
 // c
-] lengthOf `// not a comment` , }")).
-Eval vm_compute in ("<<<M1204>>>" ++ check (runes_of_ascii "packet
-    tag
-{ //
-@tag(
-    007)
-@tag( 007 ) u T `it's`, }
-// c
+{ char[ 0123456789 ] i64_ , } , } options { }")).
+Eval vm_compute in ("<<<M1876>>>" ++ check (runes_of_ascii "packet
+    Pad // a // b
+{ i8i8 @calculatedFrom( ""a	b"") `u8 x,` ,
+} options{ fl")).
+Eval vm_compute in ("<<<M234>>>" ++ check (runes_of_ascii "packet	As{ match  repeatCount as metadata
+{ 007 : //x
+crc, ""a	b"" :
+    A} , }
 ")).
-Eval vm_compute in ("<<<M2717>>>" ++ check (runes_of_ascii "@leftPad options [ `doc` uint64 root { zchar[ { MetaData ; MetaData")).
-Eval vm_compute in ("<<<M4379>>>" ++ check (runes_of_ascii "// `tick` ""quote"" 'q'
-packet zchar {
-    repeat char[1] f32a ``,
+Eval vm_compute in ("<<<M2713>>>" ++ check (runes_of_ascii "options repeat [ ] uint32 false match char[] @tag( MetaData string , float32")).
+Eval vm_compute in ("<<<M3809>>>" ++ check (runes_of_ascii "// `tick` ""quote"" 'q'
+options {
+    leftPad = float32
+}
+
+root packet o {
 }")).
-Eval vm_compute in ("<<<M496>>>" ++ check (runes_of_ascii "packet T{	}
-root
-packet crc // `tick` ""quote"" 'q'
-{ u8 Z9_, }")).
-Eval vm_compute in ("<<<M2726>>>" ++ check (runes_of_ascii "@lengthOf( i16 } i16 packet rootA = false packet , u32 """ ++ [28040; 24687]%N ++ runes_of_ascii """ {")).
-Eval vm_compute in ("<<<M1933>>>" ++ check (runes_of_ascii "
-packet	As { @calculatedFrom(//x
-""{,}""	)lengthOf int64 } 	 ")).
+Eval vm_compute in ("<<<M698>>>" ++ check (runes_of_ascii "root packet Z9_{ @rightPad(
+    ) packetx `" ++ [233]%N ++ runes_of_ascii "` , }
+root packet falsey {}")).
+Eval vm_compute in ("<<<M3401>>>" ++ check (runes_of_ascii "MetaData _x { zchar[ // c
+4294967296 ] lengthOf `// not a comment` , }")).
+Eval vm_compute in ("<<<M269>>>" ++ check (runes_of_ascii "MetaData u8x { uint32 i8i8 `it's`, } options
+{
+    Logon
+= '0'	; }
+")).
+Eval vm_compute in ("<<<M2200>>>" ++ check (runes_of_ascii "root
+    // `tick` ""quote"" 'q'
+    packet As { trueish` Packet , }
+")).
+Eval vm_compute in ("<<<M3640>>>" ++ check (runes_of_ascii "packet trueish {
+    @calculatedFrom(""abc"")
+    body `tab	here`,
+}")).
+Eval vm_compute in ("<<<M252>>>" ++ check (runes_of_ascii "packet
+f32a { //
+@tag( 1 )  Z9_ chars ,chars// " ++ [128512]%N ++ runes_of_ascii " emoji
+`
+`, }
+")).
+Eval vm_compute in ("<<<M1950>>>" ++ check (runes_of_ascii "
+packet	As { @cal'\x01'culatedFrom(//x
+""{,}""	)lengthOf , } 	 ")).
+Eval vm_compute in ("<<<M2662>>>" ++ check (runes_of_ascii "options { a = true; b = false; c = '0'; d = ""s""; e = 007; }")).
 Eval vm_compute in ("<<<M1936>>>" ++ check (runes_of_ascii "
 packet	As { @calculatedFrom(//x
 ""{,}""	)lengthOf , } } 	 ")).
-Eval vm_compute in ("<<<M4153>>>" ++ check (runes_of_ascii "MetaData M
-
-    {  u8 x
-`tab
-	x` ,
-	T t `tab
-	x`	,	}
-")).
-Eval vm_compute in ("<<<M1739>>>" ++ check (runes_of_ascii "options options { }options {  } // `tick` ""quote"" 'q'")).
-Eval vm_compute in ("<<<M4044>>>" ++ check (runes_of_ascii "
-//
-options  { options1 =	""a\""b""}
-// @lengthOf(
- 
-")).
-Eval vm_compute in ("<<<M1896>>>" ++ check (runes_of_ascii "
-	As { @calculatedFrom(//x
-""{,}""	)lengthOf , } 	 ")).
-Eval vm_compute in ("<<<M195>>>" ++ check (runes_of_ascii "root
-packet
-// packet A { u8 x, }
-//	t
-Z9_ {
-}
-")).
-Eval vm_compute in ("<<<M1772>>>" ++ check (runes_of_ascii "options { }options {  } // `tick` ""quote"" " ++ [65279]%N ++ runes_of_ascii "'q'")).
-Eval vm_compute in ("<<<M3906>>>" ++ check (runes_of_ascii "
-
-  packet
-	A
-
-    {  u8
-    x `a
-
-b` ,
-}
-
-")).
-Eval vm_compute in ("<<<M3036>>>" ++ check (runes_of_ascii "MetaData M {
-    u8 x `x
-`,
-    T t `x
-`,
+Eval vm_compute in ("<<<M2859>>>" ++ check (runes_of_ascii "packet A {
+  match k as n {
+    [1] : B
+    2 : C
+  },
 }")).
-Eval vm_compute in ("<<<M2144>>>" ++ check (runes_of_ascii "Met'1'aData x
-{// " ++ [128512]%N ++ runes_of_ascii " emoji
-i16 stringy , }")).
-Eval vm_compute in ("<<<M2376>>>" ++ check (runes_of_ascii "MetaData Packet { }packet	asx  { @length")).
-Eval vm_compute in ("<<<M4499>>>" ++ check (runes_of_ascii "MetaData matchKey {
-    Packet As `" ++ [233]%N ++ runes_of_ascii "`,
+Eval vm_compute in ("<<<M1739>>>" ++ check (runes_of_ascii "options options { }options {  } // `tick` ""quote"" 'q'")).
+Eval vm_compute in ("<<<M985>>>" ++ check (runes_of_ascii "//
+options {
+    options1	= ""a\""b""}
+// @lengthOf(
+")).
+Eval vm_compute in ("<<<M2028>>>" ++ check (runes_of_ascii "root
+packet crc
+    { f32a @calculatedFrom( """ ++ [233]%N ++ runes_of_ascii "t" ++ [65533]%N)).
+Eval vm_compute in ("<<<M959>>>" ++ check (runes_of_ascii "packet i8i8 {
+    } packet asx	{ uint8	pack, }
+")).
+Eval vm_compute in ("<<<M1342>>>" ++ check (runes_of_ascii "
+packet u128  {  char[00// " ++ [128512]%N ++ runes_of_ascii " emoji
+]
+Pad , }
+")).
+Eval vm_compute in ("<<<M2825>>>" ++ check (runes_of_ascii "@lengthOf( @calculatedFrom( MetaDataX i8 i8 ;")).
+Eval vm_compute in ("<<<M2559>>>" ++ check (runes_of_ascii "packet A { repeat match k as n { 1 : B }, }")).
+Eval vm_compute in ("<<<M866>>>" ++ check (runes_of_ascii "packet
+o
+//	t
+// `tick` ""quote"" 'q'
+{
+}
+")).
+Eval vm_compute in ("<<<M2190>>>" ++ check (runes_of_ascii "root
+    // `tick` ""quote"" 'q'
+    packe")).
+Eval vm_compute in ("<<<M3732>>>" ++ check (runes_of_ascii "root packet A {
+    u8 x `
+        x`,
 }")).
 Eval vm_compute in ("<<<M2107>>>" ++ check (runes_of_ascii "MetaData {
 x// " ++ [128512]%N ++ runes_of_ascii " emoji
 i16 stringy , }")).
-Eval vm_compute in ("<<<M2669>>>" ++ check (runes_of_ascii "options { a = 1; } options { a = 1; }")).
-Eval vm_compute in ("<<<M1198>>>" ++ check (runes_of_ascii "// packet A { u8 x, }
-options { }
+Eval vm_compute in ("<<<M2580>>>" ++ check (runes_of_ascii "packet A { zchar[3] x @lengthOf(y), }")).
+Eval vm_compute in ("<<<M1305>>>" ++ check (runes_of_ascii "MetaData Header {
+pack o`doc` ,
+}
 ")).
-Eval vm_compute in ("<<<M3175>>>" ++ check (runes_of_ascii "packet A { @tag( // a
- 1 ) u8 x, }")).
-Eval vm_compute in ("<<<M3043>>>" ++ check (runes_of_ascii "root packet A {
-    u8 x `
-x`,
+Eval vm_compute in ("<<<M4467>>>" ++ check (runes_of_ascii "packet A {
+    u8 x `d 	`,// c 	
 }")).
-Eval vm_compute in ("<<<M1438>>>" ++ check (runes_of_ascii "root packet Foo // " ++ [128512]%N ++ runes_of_ascii " emoji
-{ }")).
-Eval vm_compute in ("<<<M4138>>>" ++ check (runes_of_ascii "
-
-  /// triple
-	options {
-
+Eval vm_compute in ("<<<M4022>>>" ++ check (runes_of_ascii "packet A {
+    u8 x `d" ++ [12288]%N ++ runes_of_ascii "`,// c" ++ [12288]%N ++ runes_of_ascii "
+}")).
+Eval vm_compute in ("<<<M2783>>>" ++ check (runes_of_ascii "U^}|d}OPKLGCG6_a=z(#7;cXSYr;lQ")).
+Eval vm_compute in ("<<<M2092>>>" ++ check (runes_of_ascii "MetaData A { u64 pack, }@tag ")).
+Eval vm_compute in ("<<<M4424>>>" ++ check (runes_of_ascii "// c
+packet
+lengthOf{
 }
 
 ")).
-Eval vm_compute in ("<<<M2822>>>" ++ check ([65533; 65533; 65533; 65533]%N ++ runes_of_ascii "
-" ++ [65533; 4; 4]%N ++ runes_of_ascii "#" ++ [65533]%N ++ runes_of_ascii "OXy" ++ [65533; 65533; 65533; 29; 65533]%N ++ runes_of_ascii "%9 I*" ++ [65533; 65533; 597; 65533; 65533]%N)).
-Eval vm_compute in ("<<<M445>>>" ++ check (runes_of_ascii "
-options  { Z9_ =	'\x00'}")).
-Eval vm_compute in ("<<<M2087>>>" ++ check (runes_of_ascii "MetaData A { /u64 pack, }")).
-Eval vm_compute in ("<<<M1192>>>" ++ check (runes_of_ascii "options { Foo= ' ' ;  }
-")).
-Eval vm_compute in ("<<<M3387>>>" ++ check (runes_of_ascii "packet lengthOf {
-// c
-}")).
-Eval vm_compute in ("<<<M1150>>>" ++ check (runes_of_ascii "/// triple
-options{	}
-")).
-Eval vm_compute in ("<<<M2573>>>" ++ check (runes_of_ascii "packet A { x `d` y, }")).
-Eval vm_compute in ("<<<M3922>>>" ++ check (runes_of_ascii "packet o 
-{ //x
-	}
-")).
-Eval vm_compute in ("<<<M585>>>" ++ check (runes_of_ascii "MetaData
-float {}
-")).
-Eval vm_compute in ("<<<M3096>>>" ++ check (runes_of_ascii "packet A {
+Eval vm_compute in ("<<<M820>>>" ++ check (runes_of_ascii "MetaData repeatCount
+{
 }
-// c" ++ [8232]%N)).
-Eval vm_compute in ("<<<M2630>>>" ++ check (runes_of_ascii "packet A { } root")).
-Eval vm_compute in ("<<<M851>>>" ++ check (runes_of_ascii "packet chars {	}")).
-Eval vm_compute in ("<<<M2720>>>" ++ check (runes_of_ascii "I/Ek^_AdRTyN""]*")).
-Eval vm_compute in ("<<<M742>>>" ++ check (runes_of_ascii "packet Z9_{}")).
-Eval vm_compute in ("<<<M2626>>>" ++ check (runes_of_ascii "packet { }")).
-Eval vm_compute in ("<<<M323>>>" ++ check (runes_of_ascii "// c
+")).
+Eval vm_compute in ("<<<M2091>>>" ++ check (runes_of_ascii "MetaData A { u64 pack~, }")).
+Eval vm_compute in ("<<<M2053>>>" ++ check (runes_of_ascii "MetaData { A u64 pack, }")).
+Eval vm_compute in ("<<<M3916>>>" ++ check (runes_of_ascii "packet repeatCount {
+}//")).
+Eval vm_compute in ("<<<M965>>>" ++ check (runes_of_ascii "options { } /// triple")).
+Eval vm_compute in ("<<<M2698>>>" ++ check (runes_of_ascii "`" ++ [233]%N ++ runes_of_ascii "` int16 [ ( options")).
+Eval vm_compute in ("<<<M4472>>>" ++ check (runes_of_ascii "
 
+  // @lengthOf(
+ 
+")).
+Eval vm_compute in ("<<<M4300>>>" ++ check (runes_of_ascii "//
+packet
+
+crc{}
 
 ")).
-Eval vm_compute in ("<<<M2470>>>" ++ check (runes_of_ascii "'\x00'")).
-Eval vm_compute in ("<<<M2519>>>" ++ check (runes_of_ascii "`a
-b`")).
-Eval vm_compute in ("<<<M2467>>>" ++ check (runes_of_ascii "ROOT")).
-Eval vm_compute in ("<<<M2499>>>" ++ check (runes_of_ascii "//")).
-Eval vm_compute in ("<<<M2504>>>" ++ check (runes_of_ascii """""")).
-Eval vm_compute in ("<<<M2680>>>" ++ check (runes_of_ascii "")).
+Eval vm_compute in ("<<<M3086>>>" ++ check (runes_of_ascii "packet A {
+}
+// c" ++ [8192]%N)).
+Eval vm_compute in ("<<<M2565>>>" ++ check (runes_of_ascii "packet A { u8 , }")).
+Eval vm_compute in ("<<<M128>>>" ++ check (runes_of_ascii "packet i8i8
+{}
+")).
+Eval vm_compute in ("<<<M2711>>>" ++ check ([65533; 65533]%N ++ runes_of_ascii "S" ++ [65533; 65533; 65533; 65533]%N ++ runes_of_ascii "L" ++ [65533]%N ++ runes_of_ascii "w" ++ [65533; 65533; 65533; 21; 65533]%N)).
+Eval vm_compute in ("<<<M1914>>>" ++ check (runes_of_ascii "
+packet	As {")).
+Eval vm_compute in ("<<<M2633>>>" ++ check (runes_of_ascii "packet A {")).
+Eval vm_compute in ("<<<M2435>>>" ++ check (runes_of_ascii "zchar[]")).
+Eval vm_compute in ("<<<M2852>>>" ++ check (runes_of_ascii "uint32")).
+Eval vm_compute in ("<<<M3065>>>" ++ check (runes_of_ascii "// c" ++ [12288]%N)).
+Eval vm_compute in ("<<<M2513>>>" ++ check (runes_of_ascii """\\""")).
+Eval vm_compute in ("<<<M2527>>>" ++ check (runes_of_ascii "1.5")).
+Eval vm_compute in ("<<<M2535>>>" ++ check (runes_of_ascii "1_")).
